@@ -895,3 +895,1597 @@ Proof.
     + intros ap' Hin. apply Hz. right. exact Hin.
     + intros b0 ap0 Hin. rewrite Ha. apply Hcons. right. exact Hin.
 Qed.
+
+
+
+(* ------------------------------------------------------------------ application level, local form *)
+(* C03 application_order / C09 stop_application_order as DESIGN states them (every state): application jobs become
+   current only when NO application job is current, and they are the jobs planned under the least (Starter) /
+   greatest (Stopper) application sequence number planned at that moment *)
+Theorem application_pop_is_extremal : forall k s push outs s',
+  step_next_pop k s = Ok ((push, outs), s') ->
+  push = [] \/
+  exists seq cur,
+    cm_current (get_cmdr k s) = [] /\
+    aget seq (cm_planned (get_cmdr k s)) = Some cur /\
+    (forall y, In y (akeys (cm_planned (get_cmdr k s))) ->
+       match k with KStart => seq <= y | KStop => y <= seq end) /\
+    push = [CStartJobs k cur; CNext k] /\
+    get_cmdr k s' = mkCmdr (adel seq (cm_planned (get_cmdr k s))) cur.
+Proof.
+  intros k s push outs s' H. unfold step_next_pop in H.
+  apply mbind_ok in H. destruct H as (s0 & s1 & H0 & H). unfold mget in H0. inversion H0; subst s0 s1; clear H0.
+  remember (cm_planned (get_cmdr k s)) as pl eqn:Epl.
+  destruct pl as [|kv pl']; [unfold ret in H; inversion H; left; reflexivity|].
+  destruct (cm_current (get_cmdr k s)) eqn:Ec; [|unfold ret in H; inversion H; left; reflexivity].
+  rewrite Epl in H.
+  destruct (pickup k (akeys (cm_planned (get_cmdr k s)))) as [seq|] eqn:Epk;
+    [|unfold ret in H; inversion H; left; reflexivity].
+  assert (Hk : In seq (akeys (cm_planned (get_cmdr k s))) /\
+               forall y, In y (akeys (cm_planned (get_cmdr k s))) -> match k with KStart => seq <= y | KStop => y <= seq end).
+  { destruct k; [apply pickup_start_min in Epk | apply pickup_stop_max in Epk]; exact Epk. }
+  destruct Hk as [Hin Hext]. destruct (aget_of_key _ _ _ Hin) as [cur Hcur]. rewrite Hcur in H.
+  apply mbind_ok in H. destruct H as (u & s1 & H0 & H). unfold ret in H. inversion H; subst push outs s'; clear H.
+  unfold mmod in H0. inversion H0; subst s1; clear H0.
+  right. rewrite Epl. exists seq, cur. split; [reflexivity|]. split; [exact Hcur|]. split; [exact Hext|]. split; [reflexivity|].
+  destruct k; reflexivity.
+Qed.
+
+
+
+(* ================================================================== SEQ-shape along runs (partial) *)
+(* ---- how one call may change the heap of application jobs *)
+Definition WFj (s : st) : Prop := forall jid, amem jid (s_jobs s) = true -> jid < s_next_id s.
+
+(* an existing job keeps its kind and application, its plan is kept or erased, its current commands shrink *)
+Definition Rj (j j' : job) : Prop :=
+  j_kind j' = j_kind j /\ j_app j' = j_app j /\
+  (j_planned j' = j_planned j \/ j_planned j' = []) /\ incl (j_current j') (j_current j).
+Definition newjob (j' : job) : Prop := j_current j' = [] /\ NoDup (akeys (j_planned j')).
+
+Definition T (s s' : st) : Prop :=
+  WFj s ->
+  WFj s' /\ s_next_id s <= s_next_id s' /\
+  (forall jid j, aget jid (s_jobs s) = Some j -> exists j', aget jid (s_jobs s') = Some j' /\ Rj j j') /\
+  (forall jid j', aget jid (s_jobs s') = Some j' -> aget jid (s_jobs s) = None -> newjob j').
+
+Lemma Rj_refl : forall j, Rj j j.
+Proof. intros j. repeat split; auto. apply incl_refl. Qed.
+Lemma Rj_trans : forall a b c, Rj a b -> Rj b c -> Rj a c.
+Proof.
+  intros a b c (A1 & A2 & A3 & A4) (B1 & B2 & B3 & B4). repeat split; try congruence.
+  - destruct B3 as [B3|B3]; [rewrite B3; exact A3|right; exact B3].
+  - eapply incl_tran; eauto.
+Qed.
+
+Lemma T_refl : forall s, T s s.
+Proof.
+  intros s Hw. split; [exact Hw|]. split; [lia|]. split.
+  - intros jid j Hj. exists j. split; [exact Hj|apply Rj_refl].
+  - intros jid j' H1 H2. congruence.
+Qed.
+
+Lemma T_trans : forall a b c, T a b -> T b c -> T a c.
+Proof.
+  intros a b c Hab Hbc Hw. destruct (Hab Hw) as (Hwb & Hn1 & Hf1 & Hnew1).
+  destruct (Hbc Hwb) as (Hwc & Hn2 & Hf2 & Hnew2).
+  split; [exact Hwc|]. split; [lia|]. split.
+  - intros jid j Hj. destruct (Hf1 _ _ Hj) as (j1 & Hj1 & R1). destruct (Hf2 _ _ Hj1) as (j2 & Hj2 & R2).
+    exists j2. split; [exact Hj2|eapply Rj_trans; eauto].
+  - intros jid j2 Hj2 Hnone. destruct (aget jid (s_jobs b)) as [j1|] eqn:Eb.
+    + pose proof (Hnew1 _ _ Eb Hnone) as [Hc Hd]. destruct (Hf2 _ _ Eb) as (j2' & Hj2' & (_ & _ & Hp & Hi)).
+      rewrite Hj2 in Hj2'. inversion Hj2'; subst j2'. split.
+      * rewrite Hc in Hi. destruct (j_current j2) as [|x r]; [reflexivity|]. exfalso. apply (Hi x). left. reflexivity.
+      * destruct Hp as [Hp|Hp]; rewrite Hp; [exact Hd|constructor].
+    + eapply Hnew2; eauto.
+Qed.
+
+Lemma T_same : forall s s', s_jobs s' = s_jobs s -> s_next_id s' = s_next_id s -> T s s'.
+Proof.
+  intros s s' Hj Hn Hw. split.
+  - intros jid H. rewrite Hj in H. rewrite Hn. apply Hw. exact H.
+  - split; [lia|]. rewrite Hj. split.
+    + intros jid j H. exists j. split; [exact H|apply Rj_refl].
+    + intros jid j' H1 H2. congruence.
+Qed.
+
+Lemma amem_aset : forall V (l : alist V) k k' v, amem k (aset k' v l) = (Z.eqb k k' || amem k l)%bool.
+Proof.
+  intros V l k k' v. unfold amem. destruct (Z.eqb k k') eqn:E.
+  - apply Z.eqb_eq in E. subst. rewrite aget_aset_same. reflexivity.
+  - assert (k <> k') by (intro; subst; rewrite Z.eqb_refl in E; discriminate).
+    rewrite aget_aset_other by assumption. reflexivity.
+Qed.
+
+(* replacing an existing job by a related one *)
+Lemma T_put_R : forall s jid j j',
+  aget jid (s_jobs s) = Some j -> Rj j j' -> T s (set_jobs (aset jid j' (s_jobs s)) s).
+Proof.
+  intros s jid j j' Hj HR Hw. simpl. split.
+  - intros x Hx. simpl in Hx. rewrite amem_aset in Hx. apply orb_prop in Hx. destruct Hx as [Hx|Hx].
+    + apply Z.eqb_eq in Hx. subst. apply Hw. unfold amem. rewrite Hj. reflexivity.
+    + apply Hw. exact Hx.
+  - split; [simpl; lia|]. split.
+    + intros x jx Hx. destruct (Z.eq_dec x jid) as [->|Hne].
+      * rewrite aget_aset_same. exists j'. split; [reflexivity|]. rewrite Hj in Hx. inversion Hx; subst. exact HR.
+      * rewrite aget_aset_other by assumption. exists jx. split; [exact Hx|apply Rj_refl].
+    + intros x jx Hx Hnone. destruct (Z.eq_dec x jid) as [->|Hne]; [congruence|].
+      rewrite aget_aset_other in Hx by assumption. congruence.
+Qed.
+
+(* allocating a job at the fresh identifier *)
+Lemma T_new : forall s j',
+  newjob j' ->
+  T s (set_jobs (aset (s_next_id s) j' (s_jobs (set_next_id (s_next_id s + 1) s))) (set_next_id (s_next_id s + 1) s)).
+Proof.
+  intros s j' Hn Hw. simpl. split.
+  - intros x Hx. simpl in Hx. rewrite amem_aset in Hx. apply orb_prop in Hx. destruct Hx as [Hx|Hx].
+    + apply Z.eqb_eq in Hx. (simpl in *; lia).
+    + specialize (Hw _ Hx). (simpl in *; lia).
+  - split; [simpl; lia|]. split.
+    + intros x jx Hx. assert (x <> s_next_id s).
+      { intro; subst. assert (amem (s_next_id s) (s_jobs s) = true) by (unfold amem; rewrite Hx; reflexivity).
+        specialize (Hw _ H). (simpl in *; lia). }
+      rewrite aget_aset_other by assumption. exists jx. split; [exact Hx|apply Rj_refl].
+    + intros x jx Hx Hnone. destruct (Z.eq_dec x (s_next_id s)) as [->|Hne].
+      * rewrite aget_aset_same in Hx. inversion Hx; subst. exact Hn.
+      * rewrite aget_aset_other in Hx by assumption. congruence.
+Qed.
+
+Lemma T_fresh : forall s, T s (set_next_id (s_next_id s + 1) s).
+Proof.
+  intros s Hw. simpl. split.
+  - intros x Hx. specialize (Hw _ Hx). simpl. (simpl in *; lia).
+  - split; [simpl; lia|]. split.
+    + intros x jx Hx. exists jx. split; [exact Hx|apply Rj_refl].
+    + intros x jx Hx Hnone. congruence.
+Qed.
+
+(* ---- a small logic: monadic computations whose effect on the job heap is a T-step *)
+Definition Pres {A} (m : M A) : Prop := forall s a s', m s = Ok (a, s') -> T s s'.
+
+Lemma pres_bind : forall A B (m : M A) (f : A -> M B), Pres m -> (forall a, Pres (f a)) -> Pres (mbind m f).
+Proof.
+  intros A B m f Hm Hf s b s' H. apply mbind_ok in H. destruct H as (a & s1 & H1 & H2).
+  eapply T_trans; [eapply Hm; eauto | eapply Hf; eauto].
+Qed.
+Lemma pres_ret : forall A (a : A), Pres (ret a).
+Proof. intros A a s x s' H. unfold ret in H. inversion H; subst. apply T_refl. Qed.
+Lemma pres_fail : forall A k, Pres (@fail A k).
+Proof. intros A k s x s' H. discriminate. Qed.
+Lemma pres_mget : Pres mget.
+Proof. intros s x s' H. unfold mget in H. inversion H; subst. apply T_refl. Qed.
+Lemma pres_lift_opt : forall A (o : option A) k, Pres (lift_opt o k).
+Proof. intros A o k s x s' H. apply lift_opt_ok in H. destruct H as [_ ->]. apply T_refl. Qed.
+Lemma pres_get_job : forall jid, Pres (get_job jid).
+Proof. intros jid s x s' H. apply get_job_ok in H. destruct H as [_ ->]. apply T_refl. Qed.
+Lemma pres_get_cmd : forall cid, Pres (get_cmd cid).
+Proof. intros cid s x s' H. apply get_cmd_ok in H. destruct H as [_ ->]. apply T_refl. Qed.
+Lemma pres_get_sproc : forall a p, Pres (get_sproc a p).
+Proof. intros a p s x s' H. apply get_sproc_ok in H. destruct H as [_ ->]. apply T_refl. Qed.
+Lemma pres_get_app : forall a, Pres (get_app a).
+Proof. intros a s x s' H. unfold get_app in H. apply lift_opt_ok in H. destruct H as [_ ->]. apply T_refl. Qed.
+Lemma pres_fresh : Pres fresh.
+Proof. intros s x s' H. unfold fresh in H. inversion H; subst. apply T_fresh. Qed.
+Lemma pres_mmod_same : forall f, (forall s, s_jobs (f s) = s_jobs s /\ s_next_id (f s) = s_next_id s) -> Pres (mmod f).
+Proof. intros f Hf s x s' H. unfold mmod in H. inversion H; subst. destruct (Hf s). apply T_same; assumption. Qed.
+Lemma pres_put_cmd : forall c, Pres (put_cmd c).
+Proof. intros c. unfold put_cmd. apply pres_mmod_same. intros s. split; reflexivity. Qed.
+Lemma pres_take_place : Pres take_place.
+Proof.
+  intros s x s' H. unfold take_place in H. destruct (s_oracle s) as [|[o|l] r]; inversion H; subst;
+    try apply T_refl. apply T_same; reflexivity.
+Qed.
+Lemma pres_take_order : forall run, Pres (take_order run).
+Proof.
+  intros run s x s' H. unfold take_order in H.
+  destruct run as [|a [|b r]]; try (inversion H; subst; apply T_refl).
+  destruct (s_oracle s) as [|[o|l] r']; inversion H; subst; try apply T_refl. apply T_same; reflexivity.
+Qed.
+Lemma pres_mmap : forall A B (f : A -> M B), (forall x, Pres (f x)) -> forall l, Pres (mmap f l).
+Proof.
+  intros A B f Hf. induction l as [|x r IH]; simpl.
+  - apply pres_ret.
+  - apply pres_bind; [apply Hf|]. intros y. apply pres_bind; [exact IH|]. intros ys. apply pres_ret.
+Qed.
+Lemma pres_new_job : forall k a pl, NoDup (akeys pl) -> Pres (new_job k a pl).
+Proof.
+  intros k a pl Hnd s x s' H. unfold new_job in H.
+  apply mbind_ok in H. destruct H as (jid & s1 & H1 & H). unfold fresh in H1. inversion H1; subst jid s1; clear H1.
+  apply mbind_ok in H. destruct H as (u & s2 & H1 & H). unfold ret in H. inversion H; subst; clear H.
+  unfold put_job, mmod in H1. inversion H1; subst; clear H1.
+  apply T_new. split; [reflexivity|exact Hnd].
+Qed.
+
+Lemma set_cmdr_same : forall k c s, s_jobs (set_cmdr k c s) = s_jobs s /\ s_next_id (set_cmdr k c s) = s_next_id s.
+Proof. intros k c s. destruct k; split; reflexivity. Qed.
+Lemma set_sm_same : forall k b s, s_jobs (set_sm k b s) = s_jobs s /\ s_next_id (set_sm k b s) = s_next_id s.
+Proof. intros k b s. destruct k; split; reflexivity. Qed.
+
+Ltac pres :=
+  repeat first
+    [ apply pres_ret | apply pres_fail | apply pres_mget | apply pres_lift_opt | apply pres_get_job
+    | apply pres_get_cmd | apply pres_get_sproc | apply pres_get_app | apply pres_fresh | apply pres_put_cmd
+    | apply pres_take_place | apply pres_take_order
+    | apply pres_mmap; intros
+    | apply pres_bind; [|intros]
+    | apply pres_mmod_same; intros; first [split; reflexivity | apply set_cmdr_same | apply set_sm_same]
+    | match goal with
+      | |- Pres (if ?b then _ else _) => destruct b
+      | |- Pres (match ?x with _ => _ end) => destruct x
+      | |- Pres (let '(_, _) := ?x in _) => destruct x
+      end ].
+
+Lemma pres_update_identifier : forall c i, Pres (update_identifier c i).
+Proof. intros c i. unfold update_identifier. pres. Qed.
+Lemma pres_new_start_cmd : forall a p st ig, Pres (new_start_cmd a p st ig).
+Proof. intros. unfold new_start_cmd. pres. Qed.
+Lemma pres_new_stop_cmd : forall a p i, Pres (new_stop_cmd a p i).
+Proof. intros. unfold new_stop_cmd. pres. Qed.
+Lemma pres_stop_cmds_of : forall a p only, Pres (stop_cmds_of a p only).
+Proof. intros. unfold stop_cmds_of. pres. Qed.
+Lemma pres_put_sproc : forall a p pr b, Pres (put_sproc a p pr b).
+Proof. intros. unfold put_sproc. pres. Qed.
+
+(* ---- the plans handed to new jobs have duplicate-free keys *)
+Lemma aget_none_notin : forall V (l : alist V) k, aget k l = None -> ~ In k (akeys l).
+Proof.
+  induction l as [|[k' v'] r IH]; intros k H; simpl in *; [tauto|].
+  destruct (Z.eqb k k') eqn:E; [discriminate|]. intros [Hk|Hin].
+  - subst. rewrite Z.eqb_refl in E. discriminate.
+  - eapply IH; eauto.
+Qed.
+Lemma akeys_aset_present : forall V (l : alist V) k v old, aget k l = Some old -> akeys (aset k v l) = akeys l.
+Proof.
+  induction l as [|[k' v'] r IH]; intros k v old H; simpl in *; [discriminate|].
+  destruct (Z.eqb k k') eqn:E; simpl; [reflexivity|]. f_equal. eapply IH; eauto.
+Qed.
+Lemma nodup_snoc : forall (l : list Z) x, NoDup l -> ~ In x l -> NoDup (l ++ [x]).
+Proof.
+  induction l as [|y r IH]; intros x Hn Hx; simpl.
+  - constructor; [tauto|constructor].
+  - inversion Hn; subst. constructor.
+    + intro Hin. apply in_app_or in Hin. destruct Hin as [Hin|[->|[]]]; [contradiction|]. apply Hx. left. reflexivity.
+    + apply IH; [assumption|]. intro. apply Hx. right. assumption.
+Qed.
+Lemma aappend_nodup : forall (l : alist (list Z)) k v, NoDup (akeys l) -> NoDup (akeys (aappend k v l)).
+Proof.
+  intros l k v H. unfold aappend. destruct (aget k l) as [old|] eqn:E.
+  - erewrite akeys_aset_present; eauto.
+  - unfold akeys. rewrite map_app. simpl. apply nodup_snoc; [exact H|]. apply aget_none_notin. exact E.
+Qed.
+Lemma seq_of_nodup : forall f procs, NoDup (akeys (seq_of f procs)).
+Proof.
+  intros f procs. unfold seq_of.
+  assert (G : forall (l : alist sproc) (acc : alist (list Z)), NoDup (akeys acc) ->
+            NoDup (akeys (fold_left (fun (acc : alist (list Z)) (kv : Z * sproc) => aappend (f (sp_rules (snd kv))) (fst kv) acc) l acc))).
+  { induction l as [|x r IH]; intros acc Ha; simpl; [exact Ha|]. apply IH. apply aappend_nodup. exact Ha. }
+  apply G. constructor.
+Qed.
+Lemma filter_keys_nodup : forall V (g : Z * V -> bool) (l : alist V), NoDup (akeys l) -> NoDup (akeys (filter g l)).
+Proof.
+  induction l as [|x r IH]; intros H; simpl; [constructor|]. inversion H; subst.
+  destruct (g x); simpl; [|apply IH; assumption]. constructor; [|apply IH; assumption].
+  intro Hin. apply H2. unfold akeys in *. apply in_map_iff in Hin. destruct Hin as (y & Hy & Hin).
+  apply filter_In in Hin. apply in_map_iff. exists y. tauto.
+Qed.
+Lemma mmap_keys : forall A V (F : Z * A -> M (Z * V)),
+  (forall kv s y s', F kv s = Ok (y, s') -> fst y = fst kv) ->
+  forall l s ys s', mmap F l s = Ok (ys, s') -> map fst ys = map fst l.
+Proof.
+  intros A V F HF. induction l as [|x r IH]; intros s ys s' H; simpl in H.
+  - unfold ret in H. inversion H; reflexivity.
+  - apply mbind_ok in H. destruct H as (y & s1 & H1 & H). apply mbind_ok in H. destruct H as (ys' & s2 & H2 & H).
+    unfold ret in H. inversion H; subst. simpl. f_equal; [eapply HF; eauto|eapply IH; eauto].
+Qed.
+
+Lemma pres_starter_store : forall a strat, Pres (starter_store a strat).
+Proof.
+  intros a strat s u s' H. unfold starter_store in H.
+  apply mbind_ok in H. destruct H as (ap & s1 & H1 & H). unfold get_app in H1. apply lift_opt_ok in H1.
+  destruct H1 as [_ ->].
+  apply mbind_ok in H. destruct H as (seqs & s2 & H1 & H).
+  assert (Hk : akeys seqs = akeys (filter (fun kv => Z.ltb 0 (fst kv)) (app_start_sequence ap))).
+  { unfold akeys. eapply mmap_keys; [|exact H1]. intros kv s0 y s0' Hy. cbv beta in Hy.
+    apply mbind_ok in Hy. destruct Hy as (cids & s3 & _ & Hy). unfold ret in Hy. inversion Hy; reflexivity. }
+  assert (Hnd : NoDup (akeys seqs)).
+  { rewrite Hk. apply filter_keys_nodup. unfold app_start_sequence. destruct (sa_managed ap); [apply seq_of_nodup|constructor]. }
+  eapply T_trans.
+  - match type of H1 with mmap ?F ?l _ = _ =>
+      assert (Hp : Pres (mmap F l)) by (apply pres_mmap; intros kv; pres); exact (Hp _ _ _ H1) end.
+  - destruct seqs as [|kv r]; [revert H; apply pres_ret|].
+    revert H. apply pres_bind; [apply pres_new_job; exact Hnd|]. intros jid. pres.
+Qed.
+
+Lemma pres_stopper_store : forall a, Pres (stopper_store a).
+Proof.
+  intros a s u s' H. unfold stopper_store in H.
+  apply mbind_ok in H. destruct H as (ap & s1 & H1 & H). unfold get_app in H1. apply lift_opt_ok in H1.
+  destruct H1 as [_ ->].
+  apply mbind_ok in H. destruct H as (seqs & s2 & H1 & H).
+  assert (Hk : akeys seqs = akeys (app_stop_sequence ap)).
+  { unfold akeys. eapply mmap_keys; [|exact H1]. intros kv s0 y s0' Hy. cbv beta in Hy.
+    apply mbind_ok in Hy. destruct Hy as (cids & s3 & _ & Hy). unfold ret in Hy. inversion Hy; reflexivity. }
+  assert (Hnd : NoDup (akeys (filter (fun kv : Z * list Z => match snd kv with [] => false | _ => true end) seqs))).
+  { apply filter_keys_nodup. rewrite Hk. unfold app_stop_sequence. apply seq_of_nodup. }
+  eapply T_trans.
+  - match type of H1 with mmap ?F ?l _ = _ =>
+      assert (Hp : Pres (mmap F l)) by (apply pres_mmap; intros kv; pres); exact (Hp _ _ _ H1) end.
+  - destruct (filter (fun kv : Z * list Z => match snd kv with [] => false | _ => true end) seqs) as [|kv r] eqn:Ef;
+      [revert H; apply pres_ret|].
+    revert H. apply pres_bind; [apply pres_new_job; exact Hnd|]. intros jid. pres.
+Qed.
+
+(* ---- calls that rewrite an existing job *)
+Lemma pres_put_job_R : forall jid j j' s u s',
+  Rj j j' -> aget jid (s_jobs s) = Some j -> put_job jid j' s = Ok (u, s') -> T s s'.
+Proof.
+  intros jid j j' s u s' HR Hj H. unfold put_job, mmod in H. inversion H; subst. eapply T_put_R; eauto.
+Qed.
+
+Lemma Rj_process_failure : forall j r, Rj j (process_failure j r).
+Proof.
+  intros j r. unfold process_failure. destruct (j_kind j) eqn:Ek; [|apply Rj_refl].
+  destruct (pr_required r); [|apply Rj_refl].
+  destruct (Z.eqb (pr_sfs r) gen_StartingFailureStrategies_ABORT).
+  - repeat split; simpl; auto. apply incl_refl.
+  - destruct (Z.eqb (pr_sfs r) gen_StartingFailureStrategies_STOP); [|apply Rj_refl].
+    repeat split; simpl; auto. apply incl_refl.
+Qed.
+
+Lemma Rj_set_current : forall j cur sr, incl cur (j_current j) -> Rj j (set_job_fields j (j_planned j) cur sr).
+Proof. intros j cur sr H. repeat split; simpl; auto. Qed.
+
+Lemma pres_step_after : forall k jid, Pres (step_after k jid).
+Proof.
+  intros k jid s r s' H. unfold step_after in H.
+  apply mbind_ok in H. destruct H as (j & s1 & Hj & H). apply get_job_ok in Hj. destruct Hj as [Hj ->].
+  destruct k.
+  - destruct (j_stop_request j).
+    + apply mbind_ok in H. destruct H as (u & s1 & H1 & H). unfold ret in H. inversion H; subst; clear H.
+      eapply pres_put_job_R; [|exact Hj|exact H1]. apply Rj_set_current. apply incl_refl.
+    + revert H. apply pres_ret.
+  - revert H. pres.
+Qed.
+
+Lemma pres_step_proc_failure : forall jid a p, Pres (step_proc_failure jid a p).
+Proof.
+  intros jid a p s r s' H. unfold step_proc_failure in H.
+  apply mbind_ok in H. destruct H as (j & s1 & Hj & H). apply get_job_ok in Hj. destruct Hj as [Hj ->].
+  apply mbind_ok in H. destruct H as (pr & s1 & Hp & H). apply get_sproc_ok in Hp. destruct Hp as [_ ->].
+  apply mbind_ok in H. destruct H as (u & s1 & H1 & H). unfold ret in H. inversion H; subst; clear H.
+  eapply pres_put_job_R; [|exact Hj|exact H1]. apply Rj_process_failure.
+Qed.
+
+Lemma pres_step_aj_on_event : forall jid p i, Pres (step_aj_on_event jid p i).
+Proof.
+  intros jid p i s r s' H. unfold step_aj_on_event in H.
+  apply mbind_ok in H. destruct H as (j & s1 & Hj & H). apply get_job_ok in Hj. destruct Hj as [Hj ->].
+  apply mbind_ok in H. destruct H as (s0 & s1 & H0 & H). unfold mget in H0. inversion H0; subst s0 s1; clear H0.
+  destruct (find_cmd s (j_current j) p (Some i)) as [c|]; [|revert H; apply pres_ret].
+  apply mbind_ok in H. destruct H as (pr & s1 & Hp & H). apply get_sproc_ok in Hp. destruct Hp as [_ ->].
+  apply mbind_ok in H. destruct H as (inf & s1 & Hi & H). apply lift_opt_ok in Hi. destruct Hi as [_ ->].
+  destruct (cmd_on_event (c_kind c) (pr_wait_exit (sp_rules pr)) (c_ignore_we c) (i_state inf) (i_expected inf))
+    as [res reset].
+  apply mbind_ok in H. destruct H as (u & s1 & H1 & H).
+  assert (Hs1 : s_jobs s1 = s_jobs s /\ s_next_id s1 = s_next_id s).
+  { destruct reset.
+    - apply mbind_ok in H1. destruct H1 as (cnt & s2 & Hc & H1). apply lift_opt_ok in Hc. destruct Hc as [_ ->].
+      unfold put_cmd, mmod in H1. inversion H1; subst. split; reflexivity.
+    - unfold ret in H1. inversion H1; subst. split; reflexivity. }
+  destruct Hs1 as [Hjobs Hnid].
+  eapply T_trans; [apply T_same; eassumption|].
+  assert (Hj1 : aget jid (s_jobs s1) = Some j) by (rewrite Hjobs; exact Hj).
+  destruct res; try (revert H; apply pres_ret).
+  - apply mbind_ok in H. destruct H as (cur & s2 & Hc & H). apply lift_opt_ok in Hc. destruct Hc as [Hc ->].
+    apply mbind_ok in H. destruct H as (u2 & s2 & H2 & H). unfold ret in H. inversion H; subst; clear H.
+    eapply pres_put_job_R; [|exact Hj1|exact H2]. apply Rj_set_current. intros x Hx. eapply zremove_in; eauto.
+  - apply mbind_ok in H. destruct H as (cur & s2 & Hc & H). apply lift_opt_ok in Hc. destruct Hc as [Hc ->].
+    apply mbind_ok in H. destruct H as (u2 & s2 & H2 & H). unfold ret in H. inversion H; subst; clear H.
+    eapply pres_put_job_R; [|exact Hj1|exact H2].
+    eapply Rj_trans; [|apply Rj_process_failure]. apply Rj_set_current. intros x Hx. eapply zremove_in; eauto.
+Qed.
+
+Lemma pres_step_aj_check_cmd : forall jid cid, Pres (step_aj_check_cmd jid cid).
+Proof.
+  intros jid cid s r s' H. unfold step_aj_check_cmd in H.
+  apply mbind_ok in H. destruct H as (c & s1 & Hc & H). apply get_cmd_ok in Hc. destruct Hc as [_ ->].
+  apply mbind_ok in H. destruct H as (pr & s1 & Hp & H). apply get_sproc_ok in Hp. destruct Hp as [_ ->].
+  apply mbind_ok in H. destruct H as (i & s1 & Hi & H). apply lift_opt_ok in Hi. destruct Hi as [_ ->].
+  apply mbind_ok in H. destruct H as (inf & s1 & Hf & H). apply lift_opt_ok in Hf. destruct Hf as [_ ->].
+  apply mbind_ok in H. destruct H as (s0 & s1 & H0 & H). unfold mget in H0. inversion H0; subst s0 s1; clear H0.
+  apply mbind_ok in H. destruct H as (cnt & s1 & Hn & H). apply lift_opt_ok in Hn. destruct Hn as [_ ->].
+  destruct (cmd_timed_out (c_kind c) (pr_wait_exit (sp_rules pr)) (c_ignore_we c) (i_state inf) (c_req c)
+                          (c_min c) (c_wait c) cnt) as [expected res].
+  destruct res; try (revert H; apply pres_ret).
+  - apply mbind_ok in H. destruct H as (j & s1 & Hj & H). apply get_job_ok in Hj. destruct Hj as [Hj ->].
+    apply mbind_ok in H. destruct H as (cur & s2 & Hc & H). apply lift_opt_ok in Hc. destruct Hc as [Hc ->].
+    apply mbind_ok in H. destruct H as (u2 & s2 & H2 & H). unfold ret in H. inversion H; subst; clear H.
+    eapply pres_put_job_R; [|exact Hj|exact H2]. apply Rj_set_current. intros x Hx. eapply zremove_in; eauto.
+  - apply mbind_ok in H. destruct H as (j & s1 & Hj & H). apply get_job_ok in Hj. destruct Hj as [Hj ->].
+    apply mbind_ok in H. destruct H as (cur & s2 & Hc & H). apply lift_opt_ok in Hc. destruct Hc as [Hc ->].
+    apply mbind_ok in H. destruct H as (u2 & s2 & H2 & H). unfold ret in H. inversion H; subst; clear H.
+    eapply pres_put_job_R; [|exact Hj|exact H2]. apply Rj_set_current. intros x Hx. eapply zremove_in; eauto.
+Qed.
+
+Lemma inval_current_R : forall s lost cids j failed j' failed',
+  inval_current s lost cids j failed = (j', failed') -> Rj j j'.
+Proof.
+  intros s lost. induction cids as [|cid r IH]; intros j failed j' failed' H; simpl in H.
+  - inversion H; subst. apply Rj_refl.
+  - destruct (aget cid (s_cmds s)) as [c|]; [|eapply IH; eauto].
+    destruct (match c_ident c with Some i => zmem i lost | None => false end); [|eapply IH; eauto].
+    eapply Rj_trans; [|eapply IH; exact H].
+    set (cur := match zremove cid (j_current j) with Some l => l | None => j_current j end).
+    assert (Hcur : incl cur (j_current j)).
+    { unfold cur. destruct (zremove cid (j_current j)) eqn:E; [|apply incl_refl]. intros x Hx. eapply zremove_in; eauto. }
+    destruct (get_proc s (c_app c) (c_proc c)).
+    + eapply Rj_trans; [apply Rj_set_current; exact Hcur|apply Rj_process_failure].
+    + apply Rj_set_current; exact Hcur.
+Qed.
+
+Lemma inval_job_R : forall s lost j failed j' failed', inval_job s lost j failed = (j', failed') -> Rj j j'.
+Proof.
+  intros s lost j failed j' failed' H. unfold inval_job in H.
+  destruct (inval_current s lost (j_current j) j failed) as [j1 f1] eqn:E. inversion H; subst.
+  eapply inval_current_R; eauto.
+Qed.
+
+Lemma T_inval_cmdr : forall k s, T s (inval_cmdr k s).
+Proof.
+  intros k s. unfold inval_cmdr.
+  generalize (avals (cm_current (get_cmdr k s)) ++ concat (map (fun kv => avals (snd kv)) (cm_planned (get_cmdr k s)))).
+  intros jids. revert s. induction jids as [|jid r IH]; intros s; simpl; [apply T_refl|].
+  eapply T_trans; [|apply IH].
+  destruct (aget jid (s_jobs s)) as [j|] eqn:Ej; [|apply T_refl].
+  destruct (inval_job s (s_lost s) j (s_failed s)) as [j' f'] eqn:Ei.
+  eapply T_trans; [eapply T_put_R; [exact Ej|eapply inval_job_R; exact Ei]|].
+  apply T_same; reflexivity.
+Qed.
+
+(* ---- every call but the two that move a group (AJNext, AJGroup) and the two that may add commands to an existing
+   job (CStartProc, CStopProc) is a T-step *)
+Definition plain_call (c : call) : bool :=
+  match c with
+  | AJNext _ | AJGroup _ _ | CStartProc _ _ _ | CStopProc _ _ _ => false
+  | _ => true
+  end.
+
+Lemma pres_inval : forall k, Pres (mmod (inval_cmdr k)).
+Proof. intros k s u s' H. unfold mmod in H. inversion H; subst. apply T_inval_cmdr. Qed.
+
+Ltac pres2 :=
+  repeat first
+    [ apply pres_starter_store | apply pres_stopper_store | apply pres_put_sproc | apply pres_inval
+    | apply pres_ret | apply pres_fail | apply pres_mget | apply pres_lift_opt | apply pres_get_job
+    | apply pres_get_cmd | apply pres_get_sproc | apply pres_get_app | apply pres_fresh | apply pres_put_cmd
+    | apply pres_take_place | apply pres_take_order
+    | apply pres_mmap; intros
+    | apply pres_bind; [|intros]
+    | apply pres_mmod_same; intros; first [split; reflexivity | apply set_cmdr_same | apply set_sm_same]
+    | match goal with
+      | |- Pres (if ?b then _ else _) => destruct b
+      | |- Pres (match ?x with _ => _ end) => destruct x
+      end ].
+
+Lemma plain_call_T : forall c, plain_call c = true -> Pres (step_call c).
+Proof.
+  intros c Hc. destruct c; simpl in Hc; try discriminate Hc; simpl;
+    try (unfold step_next_loop, step_after_procs, step_next_pop, step_force, step_on_event);
+    first [ apply pres_step_after | apply pres_step_proc_failure | apply pres_step_aj_on_event
+          | apply pres_step_aj_check_cmd | pres2 ].
+Qed.
+
+(* ---- the two calls that move a group *)
+Lemma aj_next_cases : forall jid s push outs s',
+  step_aj_next jid s = Ok ((push, outs), s') ->
+  (push = [] /\ s' = s) \/
+  (exists j seq group,
+     aget jid (s_jobs s) = Some j /\ j_current j = [] /\
+     pickup (j_kind j) (akeys (j_planned j)) = Some seq /\ aget seq (j_planned j) = Some group /\
+     push = [AJGroup jid group; AJNext jid] /\
+     s' = set_jobs (aset jid (set_job_fields j (adel seq (j_planned j)) [] (j_stop_request j)) (s_jobs s)) s).
+Proof.
+  intros jid s push outs s' H. unfold step_aj_next in H.
+  apply mbind_ok in H. destruct H as (j & s1 & Hj & H). apply get_job_ok in Hj. destruct Hj as [Hj ->].
+  destruct (j_current j) eqn:Ec; [|unfold ret in H; inversion H; left; auto].
+  remember (j_planned j) as pl eqn:Ep. destruct pl as [|kv pl']; [unfold ret in H; inversion H; left; auto|].
+  rewrite Ep in H. destruct (pickup (j_kind j) (akeys (j_planned j))) as [seq|] eqn:Epk;
+    [|unfold ret in H; inversion H; left; auto].
+  assert (Hk : In seq (akeys (j_planned j))).
+  { destruct (j_kind j); [apply pickup_start_min in Epk | apply pickup_stop_max in Epk]; tauto. }
+  destruct (aget_of_key _ _ _ Hk) as [g Hg]. rewrite Hg in H.
+  apply mbind_ok in H. destruct H as (u & s1 & H1 & H). unfold ret in H. inversion H; subst push outs s1; clear H.
+  unfold put_job, mmod in H1. inversion H1; subst s'; clear H1.
+  right. exists j, seq, g. repeat split; auto.
+Qed.
+
+Lemma aj_group_cases : forall jid cid rest s push outs s',
+  step_aj_group jid (cid :: rest) s = Ok ((push, outs), s') ->
+  s_next_id s' = s_next_id s /\
+  (s_jobs s' = s_jobs s \/
+   exists j, aget jid (s_jobs s) = Some j /\
+             s_jobs s' = aset jid (set_job_fields j (j_planned j) (j_current j ++ [cid]) (j_stop_request j)) (s_jobs s)) /\
+  (forall jid' g, In (AJGroup jid' g) push -> jid' = jid /\ g = rest) /\
+  (forall jid', ~ In (AJNext jid') push).
+Proof.
+  intros jid cid rest s push outs s' H. unfold step_aj_group in H.
+  apply mbind_ok in H. destruct H as (c & s1 & Hc & H). apply get_cmd_ok in Hc. destruct Hc as [Hc ->].
+  apply mbind_ok in H. destruct H as (pr & s1 & Hp & H). apply get_sproc_ok in Hp. destruct Hp as [Hp ->].
+  assert (Happ : forall s0 u s1, job_append jid cid s0 = Ok (u, s1) ->
+            s_next_id s1 = s_next_id s0 /\ exists j, aget jid (s_jobs s0) = Some j /\
+            s_jobs s1 = aset jid (set_job_fields j (j_planned j) (j_current j ++ [cid]) (j_stop_request j)) (s_jobs s0)).
+  { intros s0 u s1 Ha. unfold job_append in Ha. apply mbind_ok in Ha. destruct Ha as (j & s2 & Hj & Ha).
+    apply get_job_ok in Hj. destruct Hj as [Hj ->]. unfold put_job, mmod in Ha. inversion Ha; subst.
+    split; [reflexivity|]. exists j. split; [exact Hj|reflexivity]. }
+  assert (Hgrp : forall jid' g, In (AJGroup jid' g) [AJGroup jid rest] -> jid' = jid /\ g = rest).
+  { intros jid' g [Hin|[]]. inversion Hin; auto. }
+  assert (Hnx : forall jid', ~ In (AJNext jid') [AJGroup jid rest]).
+  { intros jid' [Hin|[]]. discriminate. }
+  destruct (c_kind c).
+  - destruct (sp_stopped pr).
+    + apply mbind_ok in H. destruct H as (o & s1 & Ho & H).
+      assert (Hs1 : s_jobs s1 = s_jobs s /\ s_next_id s1 = s_next_id s).
+      { unfold take_place in Ho. destruct (s_oracle s) as [|[x|x] r]; inversion Ho; subst; split; reflexivity. }
+      destruct Hs1 as [Hj1 Hn1].
+      apply mbind_ok in H. destruct H as (c1 & s2 & Hu & H).
+      assert (Hs2 : s2 = s1).
+      { destruct o; [apply update_identifier_wait in Hu; tauto|unfold ret in Hu; inversion Hu; reflexivity]. }
+      subst s2.
+      destruct (c_ident c1) as [i|].
+      * apply mbind_ok in H. destruct H as (s0 & s2 & H0 & H). unfold mget in H0. inversion H0; subst s0 s2; clear H0.
+        apply mbind_ok in H. destruct H as (cnt & s2 & Hn & H). apply lift_opt_ok in Hn. destruct Hn as [_ ->].
+        apply mbind_ok in H. destruct H as (u & s2 & Hpc & H). unfold put_cmd, mmod in Hpc. inversion Hpc; subst s2; clear Hpc.
+        apply mbind_ok in H. destruct H as (u2 & s3 & Ha & H). unfold ret in H. inversion H; subst; clear H.
+        apply Happ in Ha. simpl in Ha. destruct Ha as [Hn (j & Hj & Hjs)].
+        split; [congruence|]. split; [right; exists j; rewrite <- Hj1; auto|]. split; assumption.
+      * apply mbind_ok in H. destruct H as (s0 & s2 & H0 & H). unfold mget in H0. inversion H0; subst s0 s2; clear H0.
+        apply mbind_ok in H. destruct H as (u & s2 & Hpc & H). unfold put_cmd, mmod in Hpc. inversion Hpc; subst s2; clear Hpc.
+        unfold ret in H. inversion H; subst; clear H. simpl.
+        split; [exact Hn1|]. split; [left; exact Hj1|]. split.
+        -- intros jid' g [Hin|[Hin|Hin]]; try discriminate. apply Hgrp. exact Hin.
+        -- intros jid' [Hin|[Hin|[Hin|[]]]]; discriminate.
+    + unfold ret in H. inversion H; subst. split; [reflexivity|]. split; [left; reflexivity|]. split; assumption.
+  - destruct (c_ident c) as [i|].
+    + destruct (sp_running_on pr i).
+      * apply mbind_ok in H. destruct H as (s0 & s2 & H0 & H). unfold mget in H0. inversion H0; subst s0 s2; clear H0.
+        apply mbind_ok in H. destruct H as (cnt & s2 & Hn & H). apply lift_opt_ok in Hn. destruct Hn as [_ ->].
+        apply mbind_ok in H. destruct H as (u & s2 & Hpc & H). unfold put_cmd, mmod in Hpc. inversion Hpc; subst s2; clear Hpc.
+        apply mbind_ok in H. destruct H as (u2 & s3 & Ha & H). unfold ret in H. inversion H; subst; clear H.
+        apply Happ in Ha. simpl in Ha. destruct Ha as [Hn (j & Hj & Hjs)].
+        split; [exact Hn|]. split; [right; exists j; auto|]. split; assumption.
+      * unfold ret in H. inversion H; subst. split; [reflexivity|]. split; [left; reflexivity|]. split; assumption.
+    + unfold ret in H. inversion H; subst. split; [reflexivity|]. split; [left; reflexivity|]. split; assumption.
+Qed.
+
+(* no other call pushes a group *)
+Definition pushes_group (c : call) : bool := match c with AJNext _ | AJGroup _ _ => true | _ => false end.
+
+Lemma only_next_and_group_push_groups : forall c s push outs s',
+  pushes_group c = false -> step_call c s = Ok ((push, outs), s') ->
+  forall jid g, ~ In (AJGroup jid g) push.
+Proof.
+  intros c s push outs s' Hc H jid g Hin.
+  assert (F : Forall (fun x => match x with AJGroup _ _ => False | _ => True end) push).
+  { destruct c; simpl in Hc; try discriminate Hc; simpl in H;
+      try (unfold step_next_loop, step_after, step_after_procs, step_next_pop, step_proc_failure,
+             step_force, step_on_event, step_aj_on_event, step_aj_check_cmd, step_start_proc, step_stop_proc in H);
+      chase H; repeat (apply Forall_cons; [exact I|]); try apply Forall_nil;
+      try (apply Forall_app; split); try (apply Forall_forall; intros x Hx; apply in_map_iff in Hx;
+        destruct Hx as (y & <- & _); exact I); repeat (apply Forall_cons; [exact I|]); try apply Forall_nil.
+    all: try (match goal with |- Forall _ (match ?x with _ => _ end) => destruct x end);
+         repeat constructor;
+         try (apply Forall_forall; intros x Hx; apply in_map_iff in Hx; destruct Hx as (y & <- & _); exact I). }
+  rewrite Forall_forall in F. apply (F _ Hin).
+Qed.
+
+(* ---- frame of the two job tables (Commander.planned_jobs / current_jobs) *)
+Definition Fr (s s' : st) : Prop := s_starter s' = s_starter s /\ s_stopper s' = s_stopper s.
+Definition PresF {A} (m : M A) : Prop := forall s a s', m s = Ok (a, s') -> Fr s s'.
+Lemma Fr_refl : forall s, Fr s s. Proof. intros; split; reflexivity. Qed.
+Lemma Fr_trans : forall a b c, Fr a b -> Fr b c -> Fr a c.
+Proof. intros a b c [A1 A2] [B1 B2]. split; congruence. Qed.
+Lemma presF_bind : forall A B (m : M A) (f : A -> M B), PresF m -> (forall a, PresF (f a)) -> PresF (mbind m f).
+Proof.
+  intros A B m f Hm Hf s b s' H. apply mbind_ok in H. destruct H as (a & s1 & H1 & H2).
+  eapply Fr_trans; [eapply Hm; eauto | eapply Hf; eauto].
+Qed.
+Lemma presF_ret : forall A (a : A), PresF (ret a).
+Proof. intros A a s x s' H. unfold ret in H. inversion H; subst. apply Fr_refl. Qed.
+Lemma presF_fail : forall A k, PresF (@fail A k).
+Proof. intros A k s x s' H. discriminate. Qed.
+Lemma presF_mget : PresF mget.
+Proof. intros s x s' H. unfold mget in H. inversion H; subst. apply Fr_refl. Qed.
+Lemma presF_lift_opt : forall A (o : option A) k, PresF (lift_opt o k).
+Proof. intros A o k s x s' H. apply lift_opt_ok in H. destruct H as [_ ->]. apply Fr_refl. Qed.
+Lemma presF_mmod : forall f, (forall s, Fr s (f s)) -> PresF (mmod f).
+Proof. intros f Hf s x s' H. unfold mmod in H. inversion H; subst. apply Hf. Qed.
+Lemma presF_fresh : PresF fresh.
+Proof. intros s x s' H. unfold fresh in H. inversion H; subst. split; reflexivity. Qed.
+Lemma presF_take_place : PresF take_place.
+Proof.
+  intros s x s' H. unfold take_place in H. destruct (s_oracle s) as [|[o|l] r]; inversion H; subst; split; reflexivity.
+Qed.
+Lemma presF_take_order : forall run, PresF (take_order run).
+Proof.
+  intros run s x s' H. unfold take_order in H.
+  destruct run as [|a [|b r]]; try (inversion H; subst; apply Fr_refl).
+  destruct (s_oracle s) as [|[o|l] r']; inversion H; subst; split; reflexivity.
+Qed.
+Lemma presF_mmap : forall A B (f : A -> M B), (forall x, PresF (f x)) -> forall l, PresF (mmap f l).
+Proof.
+  intros A B f Hf. induction l as [|x r IH]; simpl.
+  - apply presF_ret.
+  - apply presF_bind; [apply Hf|]. intros y. apply presF_bind; [exact IH|]. intros ys. apply presF_ret.
+Qed.
+Lemma set_sm_fr : forall k b s, Fr s (set_sm k b s).
+Proof. intros k b s. destruct k; split; reflexivity. Qed.
+
+Lemma presF_get_job : forall jid, PresF (get_job jid).
+Proof. intros jid s x s' H. apply get_job_ok in H. destruct H as [_ ->]. apply Fr_refl. Qed.
+Lemma presF_get_cmd : forall cid, PresF (get_cmd cid).
+Proof. intros cid s x s' H. apply get_cmd_ok in H. destruct H as [_ ->]. apply Fr_refl. Qed.
+Lemma presF_get_sproc : forall a p, PresF (get_sproc a p).
+Proof. intros a p s x s' H. apply get_sproc_ok in H. destruct H as [_ ->]. apply Fr_refl. Qed.
+Lemma presF_get_app : forall a, PresF (get_app a).
+Proof. intros a s x s' H. unfold get_app in H. apply lift_opt_ok in H. destruct H as [_ ->]. apply Fr_refl. Qed.
+Lemma presF_put_cmd : forall c, PresF (put_cmd c).
+Proof. intros c s x s' H. unfold put_cmd, mmod in H. inversion H; subst. split; reflexivity. Qed.
+Lemma presF_put_job : forall jid j, PresF (put_job jid j).
+Proof. intros jid j s x s' H. unfold put_job, mmod in H. inversion H; subst. split; reflexivity. Qed.
+
+Ltac presF :=
+  repeat first
+    [ apply presF_ret | apply presF_fail | apply presF_mget | apply presF_lift_opt | apply presF_fresh
+    | apply presF_get_job | apply presF_get_cmd | apply presF_get_sproc | apply presF_get_app
+    | apply presF_put_cmd | apply presF_put_job
+    | apply presF_take_place | apply presF_take_order
+    | apply presF_mmap; intros
+    | apply presF_bind; [|intros]
+    | apply presF_mmod; intros; first [split; reflexivity | apply set_sm_fr]
+    | match goal with
+      | |- PresF (if ?b then _ else _) => destruct b
+      | |- PresF (match ?x with _ => _ end) => destruct x
+      end ].
+
+Lemma presF_stop_cmds_of : forall a p only, PresF (stop_cmds_of a p only).
+Proof. intros. unfold stop_cmds_of. presF. Qed.
+Lemma presF_new_start_cmd : forall a p st ig, PresF (new_start_cmd a p st ig).
+Proof. intros. unfold new_start_cmd. presF. Qed.
+
+(* start_process / stop_process for an application that has no job: a new job is created *)
+Lemma start_proc_T : forall strat a p s r s',
+  get_application_job (s_starter s) a = None -> step_start_proc strat a p s = Ok (r, s') -> T s s'.
+Proof.
+  intros strat a p s r s' Hg H. unfold step_start_proc in H.
+  apply mbind_ok in H. destruct H as (pr & s1 & Hp & H). apply get_sproc_ok in Hp. destruct Hp as [_ ->].
+  destruct (sp_stopped pr); [|revert H; apply pres_ret].
+  apply mbind_ok in H. destruct H as (cid & s1 & Hc & H).
+  pose proof (pres_new_start_cmd _ _ _ _ _ _ _ Hc) as T1.
+  pose proof (presF_new_start_cmd _ _ _ _ _ _ _ Hc) as [F1 _].
+  eapply T_trans; [exact T1|].
+  apply mbind_ok in H. destruct H as (s0 & s2 & H0 & H). unfold mget in H0. inversion H0; subst s0 s2; clear H0.
+  rewrite F1, Hg in H.
+  apply mbind_ok in H. destruct H as (u & s2 & H1 & H). unfold ret in H. inversion H; subst; clear H.
+  revert H1. apply pres_bind; [apply pres_get_app|]. intros ap.
+  apply pres_bind; [apply pres_new_job; simpl; constructor; [tauto|constructor]|]. intros jid. pres.
+Qed.
+
+Lemma stop_proc_T : forall a p ids s r s',
+  get_application_job (s_stopper s) a = None -> step_stop_proc a p ids s = Ok (r, s') -> T s s'.
+Proof.
+  intros a p ids s r s' Hg H. unfold step_stop_proc in H.
+  apply mbind_ok in H. destruct H as (pr & s1 & Hp & H). apply get_sproc_ok in Hp. destruct Hp as [_ ->].
+  apply mbind_ok in H. destruct H as (cids & s1 & Hc & H).
+  pose proof (pres_stop_cmds_of _ _ _ _ _ _ Hc) as T1.
+  pose proof (presF_stop_cmds_of _ _ _ _ _ _ Hc) as [_ F1].
+  eapply T_trans; [exact T1|].
+  destruct cids as [|cid0 cids0]; [revert H; apply pres_ret|].
+  apply mbind_ok in H. destruct H as (s0 & s2 & H0 & H). unfold mget in H0. inversion H0; subst s0 s2; clear H0.
+  rewrite F1, Hg in H.
+  apply mbind_ok in H. destruct H as (u & s2 & H1 & H). unfold ret in H. inversion H; subst; clear H.
+  revert H1. apply pres_bind; [apply pres_get_app|]. intros ap.
+  apply pres_bind; [apply pres_new_job; simpl; constructor; [tauto|constructor]|]. intros jid. pres.
+Qed.
+
+(* ================================================================== the SEQ-shape invariant on configurations *)
+(* ghost: for every job, the key and the content of the group popped last *)
+Definition ghost := alist (Z * list Z).
+Definition beyond (k : kind) (last key : Z) : Prop :=
+  match k with KStart => last < key | KStop => key < last end.
+
+Definition job_inv (gh : ghost) (jid : Z) (j : job) : Prop :=
+  NoDup (akeys (j_planned j)) /\
+  match aget jid gh with
+  | Some (k, g) => (forall k', In k' (akeys (j_planned j)) -> beyond (j_kind j) k k') /\ incl (j_current j) g
+  | None => j_current j = []
+  end.
+
+(* seq_shape_inv: every command in current_jobs of a job belongs to the group popped last for that job, every key
+   still planned is beyond the key of that group (greater for the Starter, smaller for the Stopper), the plan has
+   no duplicate key, and the groups still being processed on the agenda are parts of the group popped last *)
+Definition seq_shape_inv (ag : list call) (s : st) (gh : ghost) : Prop :=
+  WFj s /\
+  (forall jid j, aget jid (s_jobs s) = Some j -> job_inv gh jid j) /\
+  (forall jid g', In (AJGroup jid g') ag -> g' <> [] -> exists k g, aget jid gh = Some (k, g) /\ incl g' g) /\
+  (forall jid, amem jid gh = true -> amem jid (s_jobs s) = true).
+
+Lemma Rj_job_inv : forall gh jid j j', job_inv gh jid j -> Rj j j' -> job_inv gh jid j'.
+Proof.
+  intros gh jid j j' [Hnd Hg] (Hk & _ & Hp & Hc). split.
+  - destruct Hp as [->| ->]; [exact Hnd|constructor].
+  - destruct (aget jid gh) as [[k g]|].
+    + destruct Hg as [Hb Hi]. split.
+      * intros k' Hin. rewrite Hk. apply Hb. destruct Hp as [Hp|Hp]; rewrite Hp in Hin; [exact Hin|contradiction].
+      * eapply incl_tran; eauto.
+    + rewrite Hg in Hc. destruct (j_current j') as [|x r]; [reflexivity|]. exfalso. apply (Hc x). left. reflexivity.
+Qed.
+
+Lemma inv_T_step : forall c rest s gh s' push,
+  seq_shape_inv (c :: rest) s gh -> T s s' -> (forall jid g, ~ In (AJGroup jid g) push) ->
+  seq_shape_inv (push ++ rest) s' gh.
+Proof.
+  intros c rest s gh s' push (Hw & Hj & Hg & Hm) HT Hnp.
+  destruct (HT Hw) as (Hw' & _ & Hf & Hnew).
+  split; [exact Hw'|]. split; [|split].
+  - intros jid j' Hj'. destruct (aget jid (s_jobs s)) as [j|] eqn:Ej.
+    + destruct (Hf _ _ Ej) as (j2 & Hj2 & HR). rewrite Hj' in Hj2. inversion Hj2; subst j2.
+      eapply Rj_job_inv; eauto.
+    + destruct (Hnew _ _ Hj' Ej) as [Hc Hnd]. split; [exact Hnd|].
+      destruct (aget jid gh) as [kg|] eqn:Eg; [|exact Hc].
+      assert (amem jid gh = true) by (unfold amem; rewrite Eg; reflexivity).
+      apply Hm in H. unfold amem in H. rewrite Ej in H. discriminate.
+  - intros jid g' Hin Hne. apply in_app_or in Hin. destruct Hin as [Hin|Hin]; [exfalso; eapply Hnp; eauto|].
+    apply Hg; [right; exact Hin|exact Hne].
+  - intros jid Hin. apply Hm in Hin. unfold amem in *. destruct (aget jid (s_jobs s)) as [j|] eqn:Ej; [|discriminate].
+    destruct (Hf _ _ Ej) as (j2 & -> & _). reflexivity.
+Qed.
+
+Lemma adel_keys : forall V (l : alist V) k k', NoDup (akeys l) -> In k' (akeys (adel k l)) -> In k' (akeys l) /\ k' <> k.
+Proof.
+  induction l as [|[k0 v0] r IH]; intros k k' Hnd Hin; simpl in *; [contradiction|].
+  inversion Hnd; subst. destruct (Z.eqb k k0) eqn:E.
+  - apply Z.eqb_eq in E. subst k0. split; [right; exact Hin|]. intro; subst. contradiction.
+  - simpl in Hin. destruct Hin as [->|Hin].
+    + split; [left; reflexivity|]. intro; subst. rewrite Z.eqb_refl in E. discriminate.
+    + destruct (IH _ _ H2 Hin). split; [right; assumption|assumption].
+Qed.
+Lemma adel_nodup : forall V (l : alist V) k, NoDup (akeys l) -> NoDup (akeys (adel k l)).
+Proof.
+  induction l as [|[k0 v0] r IH]; intros k Hnd; simpl in *; [constructor|].
+  inversion Hnd; subst. destruct (Z.eqb k k0); [assumption|]. simpl. constructor; [|apply IH; assumption].
+  intro Hin. apply H1. eapply adel_keys; eauto.
+Qed.
+
+Definition guard (c : call) (rest : list call) (s : st) : bool :=
+  match c with
+  | AJNext jid =>
+      match aget jid (s_jobs s) with
+      | Some j => match j_current j, j_planned j with
+                  | [], _ :: _ =>
+                      (* H_no_reentrant_next: the job does not pop a group while one of its groups is still processed *)
+                      forallb (fun x => match x with AJGroup jid' (_ :: _) => negb (Z.eqb jid' jid) | _ => true end) rest
+                  | _, _ => true
+                  end
+      | None => true
+      end
+  | CStartProc _ a _ =>   (* H_no_add_commands: no command is added to an existing job *)
+      match get_application_job (s_starter s) a with None => true | Some _ => false end
+  | CStopProc a _ _ => match get_application_job (s_stopper s) a with None => true | Some _ => false end
+  | _ => true
+  end.
+
+Definition ghost_step (c : call) (s : st) (push : list call) (gh : ghost) : ghost :=
+  match c, push with
+  | AJNext jid, AJGroup _ g :: _ =>
+      match aget jid (s_jobs s) with
+      | Some j => match pickup (j_kind j) (akeys (j_planned j)) with Some seq => aset jid (seq, g) gh | None => gh end
+      | None => gh
+      end
+  | _, _ => gh
+  end.
+
+Lemma inv_step : forall c rest s gh push outs s',
+  seq_shape_inv (c :: rest) s gh -> guard c rest s = true -> step_call c s = Ok ((push, outs), s') ->
+  seq_shape_inv (push ++ rest) s' (ghost_step c s push gh).
+Proof.
+  intros c rest s gh push outs s' HI Hgd H.
+  destruct (pushes_group c) eqn:Epg.
+  - destruct c; simpl in Epg; try discriminate Epg; simpl in H.
+    + (* AJNext *)
+      destruct (aj_next_cases _ _ _ _ _ H) as [[-> ->]|(j & seq & group & Hj & Hc & Hpk & Hgp & -> & ->)].
+      * simpl. destruct HI as (Hw & Hjs & Hg & Hm). split; [exact Hw|]. split; [exact Hjs|]. split; [|exact Hm].
+        intros jid0 g' Hin Hne. apply Hg; [right; exact Hin|exact Hne].
+      * simpl. rewrite Hj, Hpk. destruct HI as (Hw & Hjs & Hg & Hm).
+        simpl in Hgd. rewrite Hj, Hc in Hgd.
+        assert (Hpl : exists kv pl, j_planned j = kv :: pl).
+        { destruct (j_planned j); [discriminate Hgp|eauto]. }
+        destruct Hpl as (kv & pl & Epl). rewrite Epl in Hgd. rewrite forallb_forall in Hgd.
+        destruct (Hjs _ _ Hj) as [Hnd Hgh].
+        assert (Hext : In seq (akeys (j_planned j)) /\ forall y, In y (akeys (j_planned j)) -> y <> seq -> beyond (j_kind j) seq y).
+        { destruct (j_kind j); [apply pickup_start_min in Hpk|apply pickup_stop_max in Hpk]; destruct Hpk as [Hi Hm'];
+            (split; [exact Hi|]); intros y Hy Hne; specialize (Hm' _ Hy); simpl; lia. }
+        destruct Hext as [Hin Hext].
+        split; [|split; [|split]].
+        -- intros x Hx. simpl in Hx. rewrite amem_aset in Hx. apply orb_prop in Hx. simpl. destruct Hx as [Hx|Hx].
+           ++ apply Z.eqb_eq in Hx. subst. apply Hw. unfold amem. rewrite Hj. reflexivity.
+           ++ apply Hw. exact Hx.
+        -- intros x jx Hx. simpl in Hx. destruct (Z.eq_dec x jid) as [->|Hne].
+           ++ rewrite aget_aset_same in Hx. inversion Hx; subst jx; clear Hx. split; simpl.
+              ** apply adel_nodup. exact Hnd.
+              ** rewrite aget_aset_same. split; [|intros y []].
+                 intros k' Hk'. destruct (adel_keys _ _ _ _ Hnd Hk') as [Hi Hne]. apply Hext; assumption.
+           ++ rewrite aget_aset_other in Hx by assumption. specialize (Hjs _ _ Hx).
+              unfold job_inv in *. rewrite aget_aset_other by assumption. exact Hjs.
+        -- intros x g' Hx Hne. destruct Hx as [Hx|[Hx|Hx]]; try discriminate.
+           ++ inversion Hx; subst. exists seq, g'. rewrite aget_aset_same. split; [reflexivity|apply incl_refl].
+           ++ destruct (Z.eq_dec x jid) as [->|Hxne].
+              ** exfalso. specialize (Hgd _ Hx). simpl in Hgd. destruct g' as [|y r]; [apply Hne; reflexivity|].
+                 rewrite Z.eqb_refl in Hgd. discriminate.
+              ** rewrite aget_aset_other by assumption. apply Hg; [right; exact Hx|exact Hne].
+        -- intros x Hx. simpl. rewrite amem_aset in *. apply orb_prop in Hx. destruct Hx as [Hx|Hx].
+           ++ rewrite Hx. reflexivity.
+           ++ apply Hm in Hx. rewrite Hx. apply orb_true_r.
+    + (* AJGroup *)
+      assert (Hgs : ghost_step (AJGroup jid group) s push gh = gh) by (destruct push; reflexivity). rewrite Hgs.
+      destruct group as [|cid rest0].
+      * simpl in H. unfold ret in H. inversion H; subst. simpl.
+        destruct HI as (Hw & Hjs & Hg & Hm). split; [exact Hw|]. split; [exact Hjs|]. split; [|exact Hm].
+        intros jid0 g' Hin Hne. apply Hg; [right; exact Hin|exact Hne].
+      * destruct (aj_group_cases _ _ _ _ _ _ _ H) as (Hn & Hjb & Hgr & Hnx).
+        destruct HI as (Hw & Hjs & Hg & Hm).
+        destruct (Hg jid (cid :: rest0) (or_introl eq_refl) ltac:(discriminate)) as (k & g & Hgh & Hincl).
+        split; [|split; [|split]].
+        -- intros x Hx. rewrite Hn. apply Hw. destruct Hjb as [Hjb|(j & Hj & Hjb)]; rewrite Hjb in Hx; [exact Hx|].
+           rewrite amem_aset in Hx. apply orb_prop in Hx. destruct Hx as [Hx|Hx]; [|exact Hx].
+           apply Z.eqb_eq in Hx. subst. unfold amem. rewrite Hj. reflexivity.
+        -- intros x jx Hx. destruct Hjb as [Hjb|(j & Hj & Hjb)]; rewrite Hjb in Hx; [apply Hjs; exact Hx|].
+           destruct (Z.eq_dec x jid) as [->|Hne].
+           ++ rewrite aget_aset_same in Hx. inversion Hx; subst jx; clear Hx.
+              destruct (Hjs _ _ Hj) as [Hnd Hgj]. split; [exact Hnd|]. rewrite Hgh in *. simpl.
+              destruct Hgj as [Hb Hi]. split; [exact Hb|].
+              intros y Hy. apply in_app_or in Hy. destruct Hy as [Hy|[<-|[]]]; [apply Hi; exact Hy|].
+              apply Hincl. left. reflexivity.
+           ++ rewrite aget_aset_other in Hx by assumption. apply Hjs. exact Hx.
+        -- intros x g' Hx Hne. apply in_app_or in Hx. destruct Hx as [Hx|Hx].
+           ++ destruct (Hgr _ _ Hx) as [-> ->]. exists k, g. split; [exact Hgh|].
+              intros y Hy. apply Hincl. right. exact Hy.
+           ++ apply Hg; [right; exact Hx|exact Hne].
+        -- intros x Hx. apply Hm in Hx. destruct Hjb as [Hjb|(j & Hj & Hjb)]; rewrite Hjb; [exact Hx|].
+           rewrite amem_aset. rewrite Hx. apply orb_true_r.
+  - assert (Hgs : ghost_step c s push gh = gh) by (destruct c; simpl in Epg; try discriminate Epg; reflexivity).
+    rewrite Hgs. eapply inv_T_step; [exact HI| |].
+    + destruct (plain_call c) eqn:Epl.
+      * eapply plain_call_T; eauto.
+      * destruct c; simpl in Epl, Epg; try discriminate; simpl in H, Hgd.
+        -- destruct (get_application_job (s_starter s) a) eqn:Eg; [discriminate|]. eapply start_proc_T; eauto.
+        -- destruct (get_application_job (s_stopper s) a) eqn:Eg; [discriminate|]. eapply stop_proc_T; eauto.
+    + intros jid g. eapply only_next_and_group_push_groups; eauto.
+Qed.
+
+(* ================================================================== guarded runs *)
+Inductive gentry :=
+| GPop (jid : Z) (k : kind) (old : option (Z * list Z)) (seq : Z) (group : list Z)
+    (* job jid popped the group planned under key seq; old = key and group popped before *)
+| GEmit (jid cid : Z) (entry : option (Z * list Z)) (j : option job) (o : out).
+    (* request o emitted for command cid of job jid; entry = group popped last; j = the job at that moment *)
+
+Inductive gres :=
+| GOk (s : st) (gh : ghost) (log : list gentry)
+| GCrash (k : crash)
+| GGuard.      (* the run left the class H_no_reentrant_next /\ H_no_add_commands *)
+
+Definition entries_of (c : call) (s : st) (push : list call) (outs : list out) (gh : ghost) : list gentry :=
+  match c with
+  | AJNext jid =>
+      match push, aget jid (s_jobs s) with
+      | AJGroup _ g :: _, Some j =>
+          match pickup (j_kind j) (akeys (j_planned j)) with
+          | Some seq => [GPop jid (j_kind j) (aget jid gh) seq g]
+          | None => []
+          end
+      | _, _ => []
+      end
+  | AJGroup jid (cid :: _) => map (fun o => GEmit jid cid (aget jid gh) (aget jid (s_jobs s)) o) outs
+  | _ => []
+  end.
+
+Fixpoint exec_g (fuel : nat) (ag : list call) (s : st) (gh : ghost) (acc : list gentry) : gres :=
+  match ag with
+  | [] => GOk s gh (rev acc)
+  | c :: rest =>
+      match fuel with
+      | O => GCrash OutOfFuel
+      | S f =>
+          if guard c rest s then
+            match step_call c s with
+            | Crash k => GCrash k
+            | Ok ((push, outs), s') =>
+                exec_g f (push ++ rest) s' (ghost_step c s push gh) (rev (entries_of c s push outs gh) ++ acc)
+            end
+          else GGuard
+      end
+  end.
+
+(* a guarded run is a run of the agenda machine: same final state, same requests *)
+Fixpoint outs_of_log (l : list gentry) : list out :=
+  match l with [] => [] | GEmit _ _ _ _ o :: r => o :: outs_of_log r | _ :: r => outs_of_log r end.
+
+Lemma exec_g_final_state : forall fuel ag s gh acc s' gh' log,
+  exec_g fuel ag s gh acc = GOk s' gh' log -> exists outs, exec fuel ag s [] = Ok (s', outs).
+Proof.
+  assert (G : forall fuel ag s gh acc s' gh' log oacc,
+            exec_g fuel ag s gh acc = GOk s' gh' log -> exists outs, exec fuel ag s oacc = Ok (s', outs)).
+  { induction fuel as [|f IH]; intros ag s gh acc s' gh' log oacc H; destruct ag as [|c rest]; simpl in *.
+    - inversion H; subst. eexists; reflexivity.
+    - discriminate.
+    - inversion H; subst. eexists; reflexivity.
+    - destruct (guard c rest s); [|discriminate].
+      destruct (step_call c s) as [[[push outs] s1]|k]; [|discriminate]. eapply IH; eauto. }
+  intros. eapply G; eauto.
+Qed.
+
+Definition entry_ok (e : gentry) : Prop :=
+  match e with
+  | GPop jid k old seq group => match old with Some (k0, _) => beyond k k0 seq | None => True end
+  | GEmit jid cid entry j o =>
+      exists k g jb, entry = Some (k, g) /\ j = Some jb /\ In cid g /\ incl (j_current jb) g /\
+                     (forall k', In k' (akeys (j_planned jb)) -> beyond (j_kind jb) k k')
+  end.
+
+Lemma entries_ok : forall c rest s gh push outs s',
+  seq_shape_inv (c :: rest) s gh -> step_call c s = Ok ((push, outs), s') ->
+  Forall entry_ok (entries_of c s push outs gh).
+Proof.
+  intros c rest s gh push outs s' (Hw & Hjs & Hg & Hm) H. destruct c; simpl; try constructor.
+  - (* AJNext *)
+    destruct push as [|[] ?]; try constructor.
+    destruct (aget jid (s_jobs s)) as [j|] eqn:Ej; [|constructor].
+    destruct (pickup (j_kind j) (akeys (j_planned j))) as [seq|] eqn:Epk; [|constructor].
+    constructor; [|constructor]. simpl. destruct (aget jid gh) as [[k0 g0]|] eqn:Egh; [|exact I].
+    destruct (Hjs _ _ Ej) as [_ Hj]. rewrite Egh in Hj. destruct Hj as [Hb _]. apply Hb.
+    destruct (j_kind j); [apply pickup_start_min in Epk|apply pickup_stop_max in Epk]; tauto.
+  - (* AJGroup *)
+    destruct group as [|cid rest0]; [constructor|].
+    apply Forall_forall. intros e He. apply in_map_iff in He. destruct He as (o & <- & Ho). simpl.
+    destruct (Hg jid (cid :: rest0) (or_introl eq_refl) ltac:(discriminate)) as (k & g & Hgh & Hincl).
+    assert (Hjob : exists jb, aget jid (s_jobs s) = Some jb).
+    { assert (Hin : amem jid gh = true) by (unfold amem; rewrite Hgh; reflexivity).
+      apply Hm in Hin. unfold amem in Hin. destruct (aget jid (s_jobs s)); [eauto|discriminate]. }
+    destruct Hjob as [jb Hjb]. exists k, g, jb. split; [exact Hgh|]. split; [exact Hjb|].
+    split; [apply Hincl; left; reflexivity|].
+    destruct (Hjs _ _ Hjb) as [_ Hj]. rewrite Hgh in Hj. destruct Hj as [Hb Hi]. split; assumption.
+Qed.
+
+(* SEQ-shape along every guarded run, from any configuration satisfying the invariant *)
+Theorem seq_shape_run : forall fuel ag s gh acc s' gh' log,
+  seq_shape_inv ag s gh -> Forall entry_ok acc ->
+  exec_g fuel ag s gh acc = GOk s' gh' log ->
+  seq_shape_inv [] s' gh' /\ Forall entry_ok log.
+Proof.
+  induction fuel as [|f IH]; intros ag s gh acc s' gh' log HI Hacc H; destruct ag as [|c rest]; simpl in H.
+  - inversion H; subst. split; [exact HI|apply Forall_rev; exact Hacc].
+  - discriminate.
+  - inversion H; subst. split; [exact HI|apply Forall_rev; exact Hacc].
+  - destruct (guard c rest s) eqn:Eg; [|discriminate].
+    destruct (step_call c s) as [[[push outs] s1]|k] eqn:Es; [|discriminate].
+    eapply IH; [|apply Forall_app; split; [apply Forall_rev|exact Hacc]|exact H].
+    + eapply inv_step; eauto.
+    + eapply entries_ok; eauto.
+Qed.
+
+(* ---- whole histories *)
+Lemma seq_shape_init : forall cf, seq_shape_inv [] (init_st cf) [].
+Proof.
+  intros cf. split; [|split; [|split]].
+  - intros jid H. discriminate.
+  - intros jid j H. discriminate.
+  - intros jid g' [].
+  - intros jid H. discriminate.
+Qed.
+
+Lemma pres_inval_procs : forall i targets failed, Pres (inval_procs i targets failed).
+Proof.
+  intros i. induction targets as [|[a p] r IH]; intros failed; simpl.
+  - apply pres_ret.
+  - apply pres_bind; [apply pres_get_sproc|]. intros pr. apply pres_bind; [apply pres_mget|]. intros s0.
+    destruct (invalidate (sp_st pr) i (s_now s0)); [|apply pres_fail].
+    apply pres_bind; [apply pres_put_sproc|]. intros u. apply IH.
+Qed.
+
+Lemma pres_ctx_invalidate : forall insts ids lost failed, Pres (ctx_invalidate insts ids lost failed).
+Proof.
+  induction insts as [|i r IH]; intros ids lost failed; simpl.
+  - apply pres_ret.
+  - destruct (zmem i ids); [|apply IH].
+    apply pres_bind; [apply pres_mget|]. intros s0. apply pres_bind; [apply pres_lift_opt|]. intros ins.
+    apply pres_bind; [apply pres_mmod_same; intros; split; reflexivity|]. intros u.
+    apply pres_bind; [apply pres_inval_procs|]. intros f1.
+    apply pres_bind; [apply pres_inval_procs|]. intros f2. apply IH.
+Qed.
+
+Lemma pres_op_calls : forall o, Pres (op_calls o).
+Proof.
+  intros o. destruct o; simpl.
+  - unfold ev_event. pres2.
+  - unfold ev_tick. pres2.
+  - apply pres_bind; [apply pres_mmap; intros ic; unfold ev_tick; pres2|]. intros. apply pres_ret.
+  - apply pres_ret.
+  - unfold ev_ctx_invalidate. apply pres_bind; [apply pres_mget|]. intros s0.
+    apply pres_bind; [apply pres_ctx_invalidate|]. intros [lost failed]. pres2.
+  - pres2.
+  - pres2.
+  - apply pres_ret.
+Qed.
+
+(* the calls an operation may put on the agenda: never a group in the middle of its processing *)
+Definition op_ok (o : op) : bool := match o with OpCall (AJGroup _ _) => false | _ => true end.
+
+Lemma op_calls_no_group : forall o s ag s', op_ok o = true -> op_calls o s = Ok (ag, s') ->
+  forall jid g, ~ In (AJGroup jid g) ag.
+Proof.
+  intros o s ag s' Hok H jid g Hin.
+  assert (F : Forall (fun x => match x with AJGroup _ _ => False | _ => True end) ag).
+  { destruct o; simpl in H; try (unfold ev_event, ev_tick, ev_ctx_invalidate in H); chase H;
+      repeat (apply Forall_cons; [exact I|]); try apply Forall_nil.
+    destruct c; simpl in Hok; try discriminate Hok; repeat constructor. }
+  rewrite Forall_forall in F. apply (F _ Hin).
+Qed.
+
+Definition run_op_g (fuel : nat) (s : st) (gh : ghost) (t : top) : gres :=
+  let '(o, now, orc) := t in
+  match op_calls o (set_now_oracle now orc s) with
+  | Crash k => GCrash k
+  | Ok (ag, s1) => exec_g fuel ag s1 gh []
+  end.
+
+Fixpoint run_g (fuel : nat) (s : st) (gh : ghost) (ops : list top) (acc : list gentry) : gres :=
+  match ops with
+  | [] => GOk s gh acc
+  | t :: r => match run_op_g fuel s gh t with
+              | GOk s' gh' log => run_g fuel s' gh' r (acc ++ log)
+              | other => other
+              end
+  end.
+
+Lemma inv_nil_T : forall s gh s' ag,
+  seq_shape_inv [] s gh -> T s s' -> (forall jid g, ~ In (AJGroup jid g) ag) -> seq_shape_inv ag s' gh.
+Proof.
+  intros s gh s' ag HI HT Hng.
+  assert (H1 : seq_shape_inv (CPublish KStart :: []) s gh).
+  { destruct HI as (A & B & C & D). split; [exact A|]. split; [exact B|]. split; [|exact D].
+    intros jid g' [Hin|[]]. discriminate. }
+  pose proof (inv_T_step _ _ _ _ _ ag H1 HT Hng) as H2. rewrite app_nil_r in H2. exact H2.
+Qed.
+
+(* SEQ-shape for every guarded history of operations from the initial state of any configuration *)
+Theorem seq_shape_history : forall fuel ops s gh acc s' gh' log,
+  seq_shape_inv [] s gh -> Forall entry_ok acc -> forallb (fun t => op_ok (fst (fst t))) ops = true ->
+  run_g fuel s gh ops acc = GOk s' gh' log ->
+  seq_shape_inv [] s' gh' /\ Forall entry_ok log.
+Proof.
+  intros fuel. induction ops as [|[[o now] orc] r IH]; intros s gh acc s' gh' log HI Hacc Hok H; simpl in H.
+  - inversion H; subst. split; assumption.
+  - simpl in Hok. apply andb_prop in Hok. destruct Hok as [Hok1 Hok].
+    destruct (op_calls o (set_now_oracle now orc s)) as [[ag s1]|k] eqn:Eo; [|discriminate].
+    destruct (exec_g fuel ag s1 gh []) as [s2 gh2 log2| |] eqn:Ee; try discriminate.
+    assert (HI1 : seq_shape_inv ag s1 gh).
+    { eapply inv_nil_T; [exact HI| |eapply op_calls_no_group; eauto].
+      eapply T_trans; [apply (T_same s (set_now_oracle now orc s)); reflexivity|].
+      eapply pres_op_calls; eauto. }
+    destruct (seq_shape_run _ _ _ _ _ _ _ _ HI1 (Forall_nil _) Ee) as [HI2 Hlog2].
+    eapply IH; [exact HI2| |exact Hok|exact H]. apply Forall_app. split; assumption.
+Qed.
+
+Corollary seq_shape_from_init : forall fuel cf ops s' gh' log,
+  forallb (fun t => op_ok (fst (fst t))) ops = true ->
+  run_g fuel (init_st cf) [] ops [] = GOk s' gh' log ->
+  seq_shape_inv [] s' gh' /\ Forall entry_ok log.
+Proof.
+  intros fuel cf ops s' gh' log Hok H.
+  eapply seq_shape_history; [apply seq_shape_init|constructor|exact Hok|exact H].
+Qed.
+
+(* ---- the hypotheses are satisfiable: witness C (timeout of sequence 1, then sequence 2) is a guarded history; its log
+   holds two pops of job 3 with increasing keys and two requests, each from the group popped last *)
+Example seq_shape_hypotheses_hold :
+  exists s gh log, run_g default_fuel (init_st w_cf_c) [] w_ops_c [] = GOk s gh log /\
+    map (fun e => match e with GPop jid _ _ seq g => (jid, seq, g) | GEmit jid cid _ _ _ => (jid, -1, [cid]) end) log
+      = [(3, 1, [1]); (3, -1, [1]); (3, 2, [2]); (3, -1, [2])].
+Proof. vm_compute. do 3 eexists. split; reflexivity. Qed.
+
+(* the job-level hypothesis does not exclude the 'No resource' histories: witness A is a guarded history too *)
+Example seq_shape_covers_noresource_witness :
+  exists s gh log, run_g default_fuel (init_st w_cf_a) [] w_ops_a [] = GOk s gh log.
+Proof. vm_compute. do 3 eexists. reflexivity. Qed.
+
+(* evaluators over generated cases: does the history stay in the class of the hypotheses? *)
+Definition leaves_guard (c : case) : bool :=
+  match run_g default_fuel (init_st (fst (fst c))) [] (snd (fst c)) [] with GGuard => true | _ => false end.
+Definition guard_failures (cs : list case) : list nat := find_idx leaves_guard cs.
+
+
+
+(* ================================================================== application level along runs (partial) *)
+(* frame of Commander.current_jobs of both sequencers *)
+Definition CC (s s' : st) : Prop :=
+  cm_current (s_starter s') = cm_current (s_starter s) /\ cm_current (s_stopper s') = cm_current (s_stopper s).
+Definition PresC {A} (m : M A) : Prop := forall s a s', m s = Ok (a, s') -> CC s s'.
+Lemma CC_refl : forall s, CC s s. Proof. intros; split; reflexivity. Qed.
+Lemma CC_trans : forall a b c, CC a b -> CC b c -> CC a c.
+Proof. intros a b c [A1 A2] [B1 B2]. split; congruence. Qed.
+Lemma presF_C : forall A (m : M A), PresF m -> PresC m.
+Proof. intros A m H s a s' E. destruct (H _ _ _ E) as [H1 H2]. split; congruence. Qed.
+Lemma presC_bind : forall A B (m : M A) (f : A -> M B), PresC m -> (forall a, PresC (f a)) -> PresC (mbind m f).
+Proof.
+  intros A B m f Hm Hf s b s' H. apply mbind_ok in H. destruct H as (a & s1 & H1 & H2).
+  eapply CC_trans; [eapply Hm; eauto | eapply Hf; eauto].
+Qed.
+Lemma presC_mmap : forall A B (f : A -> M B), (forall x, PresC (f x)) -> forall l, PresC (mmap f l).
+Proof.
+  intros A B f Hf. induction l as [|x r IH]; simpl.
+  - apply presF_C. apply presF_ret.
+  - apply presC_bind; [apply Hf|]. intros y. apply presC_bind; [exact IH|]. intros ys. apply presF_C. apply presF_ret.
+Qed.
+Lemma presC_mmod : forall f, (forall s, CC s (f s)) -> PresC (mmod f).
+Proof. intros f Hf s x s' H. unfold mmod in H. inversion H; subst. apply Hf. Qed.
+
+Lemma CC_inval_cmdr : forall k s, CC s (inval_cmdr k s).
+Proof.
+  intros k s. unfold inval_cmdr.
+  generalize (avals (cm_current (get_cmdr k s)) ++ concat (map (fun kv => avals (snd kv)) (cm_planned (get_cmdr k s)))).
+  intros jids. revert s. induction jids as [|jid r IH]; intros s; simpl; [apply CC_refl|].
+  eapply CC_trans; [|apply IH].
+  destruct (aget jid (s_jobs s)) as [j|]; [|apply CC_refl].
+  destruct (inval_job s (s_lost s) j (s_failed s)) as [j' f']. split; reflexivity.
+Qed.
+Lemma presC_inval : forall k, PresC (mmod (inval_cmdr k)).
+Proof. intros k. apply presC_mmod. intros s. apply CC_inval_cmdr. Qed.
+
+Lemma presF_add_commands : forall jid seq cids, PresF (add_commands jid seq cids).
+Proof.
+  intros jid seq. induction cids as [|cid r IH]; simpl; [apply presF_ret|].
+  apply presF_bind; [apply presF_get_cmd|]. intros c. apply presF_bind; [apply presF_get_job|]. intros j.
+  apply presF_bind; [apply presF_mget|]. intros s0. apply presF_bind; [|intros; apply IH].
+  destruct (find_cmd s0 (j_current j) (c_proc c) (c_ident c)); destruct (find_cmd s0 (concat (avals (j_planned j))) (c_proc c) (c_ident c));
+    first [apply presF_ret | apply presF_put_job].
+Qed.
+
+Lemma set_sm_cc : forall k b s, CC s (set_sm k b s).
+Proof. intros k b s. destruct k; split; reflexivity. Qed.
+
+Ltac presC :=
+  repeat first
+    [ apply presC_inval
+    | apply presF_C; first [ apply presF_ret | apply presF_fail | apply presF_mget | apply presF_lift_opt | apply presF_fresh
+                           | apply presF_get_job | apply presF_get_cmd | apply presF_get_sproc | apply presF_get_app
+                           | apply presF_put_cmd | apply presF_put_job | apply presF_take_place | apply presF_take_order
+                           | apply presF_add_commands ]
+    | apply presC_mmap; intros
+    | apply presC_bind; [|intros]
+    | apply presC_mmod; intros; first [split; reflexivity | apply set_sm_cc ]
+    | match goal with
+      | |- PresC (if ?b then _ else _) => destruct b
+      | |- PresC (match ?x with _ => _ end) => destruct x
+      end ].
+
+(* the calls that leave current_jobs of both sequencers untouched *)
+Definition keeps_current (c : call) : bool :=
+  match c with CDelCurrent _ _ | CNextPop _ | CAbort _ => false | _ => true end.
+
+Lemma keeps_current_CC : forall c, keeps_current c = true -> PresC (step_call c).
+Proof.
+  intros c Hc. destruct c; simpl in Hc; try discriminate Hc; simpl;
+    try (unfold step_next_loop, step_after, step_after_procs, step_aj_next, step_aj_group, job_append, step_proc_failure,
+           step_force, put_sproc, step_on_event, step_aj_on_event, step_aj_check_cmd, step_start_proc, step_stop_proc,
+           starter_store, stopper_store, stop_cmds_of, new_start_cmd, new_stop_cmd, new_job, update_identifier);
+    presC.
+Qed.
+
+(* the jobs a call of the agenda will work on *)
+Definition refs (c : call) : list Z :=
+  match c with
+  | CStartJobs _ snap => map snd snap
+  | AJNext j | AJGroup j _ | AJOnEvent j _ _ | AJCheck j | AJCheckCmd j _ => [j]
+  | _ => []
+  end.
+
+Definition is_current (s : st) (jid : Z) : Prop :=
+  In jid (avals (cm_current (s_starter s))) \/ In jid (avals (cm_current (s_stopper s))).
+
+Lemma is_current_CC : forall s s' jid, CC s s' -> is_current s jid -> is_current s' jid.
+Proof. intros s s' jid [H1 H2] H. unfold is_current in *. rewrite H1, H2. exact H. Qed.
+
+Lemma aget_in_avals : forall V (l : alist V) k v, aget k l = Some v -> In v (avals l).
+Proof.
+  induction l as [|[k' v'] r IH]; intros k v H; simpl in *; [discriminate|].
+  destruct (Z.eqb k k'); [inversion H; left; reflexivity|right; eapply IH; eauto].
+Qed.
+
+Lemma avals_adel : forall (l : alist Z) a v x, aget a l = Some v -> In x (avals l) -> x <> v -> In x (avals (adel a l)).
+Proof.
+  induction l as [|[k' v'] r IH]; intros a v x Ha Hin Hne; simpl in *; [contradiction|].
+  destruct (Z.eqb a k') eqn:E.
+  - inversion Ha; subst. destruct Hin as [Hin|Hin]; [congruence|exact Hin].
+  - simpl. destruct Hin as [Hin|Hin]; [left; exact Hin|right; eapply IH; eauto].
+Qed.
+
+(* the calls pushed by a step work on jobs the step itself worked on, or on jobs that are current *)
+Lemma pushed_refs : forall c s push outs s',
+  step_call c s = Ok ((push, outs), s') ->
+  forall x, In x push -> forall jid, In jid (refs x) ->
+    In jid (refs c) \/ is_current s' jid.
+Proof.
+  intros c s push outs s' H x Hx jid Hj.
+  destruct c; simpl in H.
+  - (* CNext *) chase H. destruct Hx as [<-|[<-|[<-|[]]]]; simpl in Hj; contradiction.
+  - unfold step_next_loop in H. chase H; repeat (destruct Hx as [<-|Hx]; [simpl in Hj; contradiction|]); contradiction.
+  - unfold step_after in H. chase H; try contradiction.
+    + destruct Hx as [<-|[]]. simpl in Hj. contradiction.
+    + apply in_app_or in Hx. destruct Hx as [Hx|[<-|[]]]; [|simpl in Hj; contradiction].
+      destruct (aget (j_app a) (s_app_req a0)); [destruct Hx as [<-|[]]|contradiction]. simpl in Hj. contradiction.
+  - unfold step_after_procs in H. chase H. destruct (aget a (s_proc_req a0)); [|contradiction].
+    apply in_map_iff in Hx. destruct Hx as (y & <- & _). simpl in Hj. contradiction.
+  - chase H; contradiction.
+  - (* CNextPop *)
+    destruct (application_pop_is_extremal _ _ _ _ _ H) as [->|(seq & cur & Hc & Hp & _ & -> & Hs')]; [contradiction|].
+    destruct Hx as [<-|[<-|[]]]; [|simpl in Hj; contradiction]. simpl in Hj. right.
+    unfold is_current. destruct k; simpl in Hs'; rewrite Hs'; simpl; [left|right]; exact Hj.
+  - (* CStartJobs *)
+    destruct snap as [|[a jid0] r]; chase H; [contradiction|].
+    destruct Hx as [<-|[<-|[]]]; simpl in Hj; left; simpl; [destruct Hj as [<-|[]]; left; reflexivity|right; exact Hj].
+  - chase H. contradiction.
+  - (* AJNext *)
+    destruct (aj_next_cases _ _ _ _ _ H) as [[-> _]|(j & seq & group & _ & _ & _ & _ & -> & _)]; [contradiction|].
+    destruct Hx as [<-|[<-|[]]]; simpl in Hj; left; simpl; exact Hj.
+  - (* AJGroup *)
+    destruct group as [|cid rest0]; [simpl in H; chase H; contradiction|].
+    destruct (aj_group_cases _ _ _ _ _ _ _ H) as (_ & _ & Hgr & Hnx).
+    destruct x; simpl in Hj; try contradiction.
+    + (* CStartJobs is never pushed by a group: the only pushes are Force, ProcFailure, AJGroup *)
+      exfalso. clear - H Hx. unfold step_aj_group in H. chase H; repeat (destruct Hx as [Hx|Hx]; [discriminate|]); contradiction.
+    + exfalso. eapply Hnx; eauto.
+    + destruct (Hgr _ _ Hx) as [-> _]. left. simpl. exact Hj.
+    + exfalso. clear - H Hx. unfold step_aj_group in H. chase H; repeat (destruct Hx as [Hx|Hx]; [discriminate|]); contradiction.
+    + exfalso. clear - H Hx. unfold step_aj_group in H. chase H; repeat (destruct Hx as [Hx|Hx]; [discriminate|]); contradiction.
+    + exfalso. clear - H Hx. unfold step_aj_group in H. chase H; repeat (destruct Hx as [Hx|Hx]; [discriminate|]); contradiction.
+  - unfold step_proc_failure in H. chase H. contradiction.
+  - unfold step_force in H. chase H; repeat (destruct Hx as [<-|Hx]; [simpl in Hj; contradiction|]); contradiction.
+  - chase H. contradiction.
+  - (* COnEvent *)
+    unfold step_on_event in H. apply mbind_ok in H. destruct H as (s0 & s1 & H0 & H). unfold mget in H0.
+    inversion H0; subst s0 s1; clear H0.
+    destruct (aget a (cm_current (get_cmdr k s))) as [jid0|] eqn:Eg; unfold ret in H; inversion H; subst; [|contradiction].
+    destruct Hx as [<-|[<-|[]]]; simpl in Hj; [|contradiction]. destruct Hj as [<-|[]]. right.
+    apply aget_in_avals in Eg. unfold is_current. destruct k; [left|right]; exact Eg.
+  - (* AJOnEvent *)
+    unfold step_aj_on_event in H. chase H; try contradiction;
+      destruct Hx as [<-|[]]; simpl in Hj; left; simpl; exact Hj.
+  - (* CCheck *)
+    apply mbind_ok in H. destruct H as (s0 & s1 & H0 & H). unfold mget in H0. inversion H0; subst s0 s1; clear H0.
+    unfold ret in H. inversion H; subst; clear H.
+    apply in_app_or in Hx. destruct Hx as [Hx|[<-|[]]]; [|simpl in Hj; contradiction].
+    apply in_map_iff in Hx. destruct Hx as (y & <- & Hy). simpl in Hj. destruct Hj as [<-|[]]. right.
+    unfold is_current. destruct k; [left|right]; exact Hy.
+  - (* AJCheck *)
+    chase H. apply in_app_or in Hx. destruct Hx as [Hx|[<-|[]]].
+    + apply in_map_iff in Hx. destruct Hx as (y & <- & _). simpl in Hj. left. simpl. exact Hj.
+    + simpl in Hj. left. simpl. exact Hj.
+  - unfold step_aj_check_cmd in H. chase H; try contradiction; destruct Hx as [<-|[]]; simpl in Hj; contradiction.
+  - chase H. destruct Hx as [<-|[]]. simpl in Hj. contradiction.
+  - chase H; try contradiction; destruct Hx as [<-|[]]; simpl in Hj; contradiction.
+  - unfold step_start_proc in H. chase H; try contradiction; destruct Hx as [<-|[]]; simpl in Hj; contradiction.
+  - chase H; try contradiction; destruct Hx as [<-|[]]; simpl in Hj; contradiction.
+  - chase H; try contradiction; destruct Hx as [<-|[]]; simpl in Hj; contradiction.
+  - unfold step_stop_proc in H. chase H; try contradiction; destruct Hx as [<-|[]]; simpl in Hj; contradiction.
+  - chase H; try contradiction; destruct Hx as [<-|[]]; simpl in Hj; contradiction.
+  - chase H; try contradiction; destruct Hx as [<-|[]]; simpl in Hj; contradiction.
+  - chase H; try contradiction; destruct Hx as [<-|[]]; simpl in Hj; contradiction.
+  - chase H. contradiction.
+Qed.
+
+Lemma next_pop_state : forall k s push outs s',
+  step_next_pop k s = Ok ((push, outs), s') ->
+  (push = [] /\ s' = s) \/
+  (exists seq cur, cm_current (get_cmdr k s) = [] /\
+     s' = set_cmdr k (mkCmdr (adel seq (cm_planned (get_cmdr k s))) cur) s).
+Proof.
+  intros k s push outs s' H. unfold step_next_pop in H.
+  apply mbind_ok in H. destruct H as (s0 & s1 & H0 & H). unfold mget in H0. inversion H0; subst s0 s1; clear H0.
+  destruct (cm_planned (get_cmdr k s)) as [|kv pl] eqn:Ep; [unfold ret in H; inversion H; left; auto|].
+  destruct (cm_current (get_cmdr k s)) eqn:Ec; [|unfold ret in H; inversion H; left; auto].
+  destruct (pickup k (akeys (kv :: pl))) as [seq|]; [|unfold ret in H; inversion H; left; auto].
+  apply mbind_ok in H. destruct H as (u & s1 & H1 & H). unfold ret in H. inversion H; subst; clear H.
+  unfold mmod in H1. inversion H1; subst. right. eexists _, _. split; reflexivity.
+Qed.
+
+
+
+(* ---- refined application-level invariant: a group being processed belongs to a current job; the other calls
+   work on a current job or on a job that has nothing planned any more (harmless leftovers of a finished job) *)
+Definition drained (s : st) (jid : Z) : Prop := exists j, aget jid (s_jobs s) = Some j /\ j_planned j = [].
+Definition weak_ok (s : st) (jid : Z) : Prop := is_current s jid \/ drained s jid.
+
+Definition current_inv2 (ag : list call) (s : st) : Prop :=
+  forall c, In c ag ->
+    (forall jid g, c = AJGroup jid g -> g <> [] -> is_current s jid) /\
+    (forall jid, In jid (refs c) -> weak_ok s jid).
+
+Definition has_group_of (jid : Z) (x : call) : bool :=
+  match x with AJGroup jid' (_ :: _) => Z.eqb jid' jid | _ => false end.
+
+(* H_no_reentrant_delete: a job is taken out of current_jobs only when it has nothing planned and none of its groups
+   is still being processed on the agenda; abort only from the top level *)
+Definition guard_current2 (c : call) (rest : list call) (s : st) : bool :=
+  match c with
+  | CDelCurrent k a =>
+      match aget a (cm_current (get_cmdr k s)) with
+      | Some jid => forallb (fun x => negb (has_group_of jid x)) rest
+                    && match aget jid (s_jobs s) with Some j => match j_planned j with [] => true | _ => false end
+                                                    | None => false end
+      | None => true
+      end
+  | CAbort _ => forallb (fun x => match refs x with [] => true | _ => false end) rest
+  | _ => true
+  end.
+
+(* under the job-level guard, plans never grow: a drained job stays drained *)
+Lemma drained_step : forall c rest s gh push outs s' jid,
+  seq_shape_inv (c :: rest) s gh -> guard c rest s = true -> step_call c s = Ok ((push, outs), s') ->
+  drained s jid -> drained s' jid.
+Proof.
+  intros c rest s gh push outs s' jid HI Hgd H (j & Hj & Hp). unfold drained.
+  destruct (pushes_group c) eqn:Epg.
+  - destruct c; simpl in Epg; try discriminate Epg; simpl in H.
+    + destruct (aj_next_cases _ _ _ _ _ H) as [[_ ->]|(j0 & seq & group & Hj0 & _ & _ & Hgp & _ & ->)];
+        [exists j; auto|].
+      simpl. destruct (Z.eq_dec jid jid0) as [->|Hne].
+      * rewrite Hj in Hj0. inversion Hj0; subst j0. rewrite Hp in Hgp. discriminate.
+      * exists j. rewrite aget_aset_other by assumption. auto.
+    + destruct group as [|cid rest0]; [simpl in H; unfold ret in H; inversion H; subst; exists j; auto|].
+      destruct (aj_group_cases _ _ _ _ _ _ _ H) as (_ & [Hjb|(j0 & Hj0 & Hjb)] & _ & _); rewrite Hjb.
+      * exists j. auto.
+      * destruct (Z.eq_dec jid jid0) as [->|Hne].
+        -- rewrite aget_aset_same. eexists. split; [reflexivity|]. simpl. rewrite Hj in Hj0. inversion Hj0; subst. exact Hp.
+        -- rewrite aget_aset_other by assumption. exists j. auto.
+  - assert (HT : T s s').
+    { destruct (plain_call c) eqn:Epl.
+      - eapply plain_call_T; eauto.
+      - destruct c; simpl in Epl, Epg; try discriminate; simpl in H, Hgd.
+        + destruct (get_application_job (s_starter s) a) eqn:Eg; [discriminate|]. eapply start_proc_T; eauto.
+        + destruct (get_application_job (s_stopper s) a) eqn:Eg; [discriminate|]. eapply stop_proc_T; eauto. }
+    destruct HI as (Hw & _). destruct (HT Hw) as (_ & _ & Hf & _).
+    destruct (Hf _ _ Hj) as (j' & Hj' & (_ & _ & Hpl & _)). exists j'. split; [exact Hj'|].
+    destruct Hpl as [Hpl|Hpl]; rewrite Hpl; [exact Hp|reflexivity].
+Qed.
+
+Lemma has_group_of_spec : forall jid x, has_group_of jid x = false ->
+  forall g, x = AJGroup jid g -> g = [].
+Proof.
+  intros jid x H g ->. simpl in H. destruct g; [reflexivity|]. rewrite Z.eqb_refl in H. discriminate.
+Qed.
+
+Lemma current_step2 : forall c rest s gh push outs s',
+  seq_shape_inv (c :: rest) s gh -> current_inv2 (c :: rest) s ->
+  guard c rest s = true -> guard_current2 c rest s = true ->
+  step_call c s = Ok ((push, outs), s') ->
+  current_inv2 (push ++ rest) s'.
+Proof.
+  intros c rest s gh push outs s' HS HI Hgd Hg H.
+  (* (1) a job that stays referenced by a group of the rest keeps being current *)
+  assert (Hstrong : forall jid, is_current s jid ->
+            (exists g, g <> [] /\ (In (AJGroup jid g) rest \/ (c = AJGroup jid g /\ push <> []))) ->
+            is_current s' jid).
+  { intros jid Hc Hwhere. destruct (keeps_current c) eqn:Ek.
+    - eapply is_current_CC; [eapply keeps_current_CC; eauto|exact Hc].
+    - destruct c; simpl in Ek; try discriminate Ek; simpl in H, Hg.
+      + apply mbind_ok in H. destruct H as (s0 & s1 & H0 & H). unfold mget in H0. inversion H0; subst s0 s1; clear H0.
+        destruct (amem a (cm_current (get_cmdr k s))) eqn:Em; [|discriminate].
+        apply mbind_ok in H. destruct H as (u & s1 & H1 & H). unfold ret in H. inversion H; subst; clear H.
+        unfold mmod in H1. inversion H1; subst s'; clear H1.
+        destruct Hwhere as (g & Hne & [Hin|[Heq _]]); [|discriminate].
+        unfold amem in Em. destruct (aget a (cm_current (get_cmdr k s))) as [jid0|] eqn:Ea; [|discriminate].
+        apply andb_prop in Hg. destruct Hg as [Hg _]. rewrite forallb_forall in Hg. specialize (Hg _ Hin).
+        apply negb_true_iff in Hg.
+        assert (Hjn : jid <> jid0).
+        { intro; subst. apply Hne. apply (has_group_of_spec _ _ Hg g). reflexivity. }
+        unfold is_current in *. destruct k; simpl in *.
+        * destruct Hc as [Hc|Hc]; [left; eapply avals_adel; eauto|right; exact Hc].
+        * destruct Hc as [Hc|Hc]; [left; exact Hc|right; eapply avals_adel; eauto].
+      + destruct (next_pop_state _ _ _ _ _ H) as [[_ ->]|(seq & cur & Hemp & ->)]; [exact Hc|].
+        unfold is_current in *. destruct k; simpl in *; rewrite Hemp in Hc.
+        * destruct Hc as [[]|Hc]. right. exact Hc.
+        * destruct Hc as [Hc|[]]. left. exact Hc.
+      + apply mbind_ok in H. destruct H as (u & s1 & H1 & H). unfold ret in H. inversion H; subst; clear H.
+        destruct Hwhere as (g & Hne & [Hin|[Heq _]]); [|discriminate].
+        rewrite forallb_forall in Hg. specialize (Hg _ Hin). simpl in Hg. discriminate. }
+  (* (2) a job referenced by the rest (or by the call, when it pushes) stays current or drained *)
+  assert (Hweak : forall jid, weak_ok s jid ->
+            ((In jid (refs c) /\ push <> []) \/ exists x, In x rest /\ In jid (refs x)) -> weak_ok s' jid).
+  { intros jid [Hc|Hd] Hwhere; [|right; eapply drained_step; eauto].
+    destruct (keeps_current c) eqn:Ek.
+    - left. eapply is_current_CC; [eapply keeps_current_CC; eauto|exact Hc].
+    - destruct c; simpl in Ek; try discriminate Ek; simpl in H, Hg.
+      + apply mbind_ok in H. destruct H as (s0 & s1 & H0 & H). unfold mget in H0. inversion H0; subst s0 s1; clear H0.
+        destruct (amem a (cm_current (get_cmdr k s))) eqn:Em; [|discriminate].
+        apply mbind_ok in H. destruct H as (u & s1 & H1 & H). unfold ret in H. inversion H; subst; clear H.
+        unfold mmod in H1. inversion H1; subst s'; clear H1.
+        unfold amem in Em. destruct (aget a (cm_current (get_cmdr k s))) as [jid0|] eqn:Ea; [|discriminate].
+        apply andb_prop in Hg. destruct Hg as [_ Hg].
+        destruct (Z.eq_dec jid jid0) as [->|Hjn].
+        * right. destruct (aget jid0 (s_jobs s)) as [j|] eqn:Ej; [|discriminate].
+          exists j. destruct k; simpl; (split; [exact Ej|]); destruct (j_planned j); [reflexivity|discriminate|reflexivity|discriminate].
+        * left. unfold is_current in *. destruct k; simpl in *.
+          -- destruct Hc as [Hc|Hc]; [left; eapply avals_adel; eauto|right; exact Hc].
+          -- destruct Hc as [Hc|Hc]; [left; exact Hc|right; eapply avals_adel; eauto].
+      + left. destruct (next_pop_state _ _ _ _ _ H) as [[_ ->]|(seq & cur & Hemp & ->)]; [exact Hc|].
+        unfold is_current in *. destruct k; simpl in *; rewrite Hemp in Hc.
+        * destruct Hc as [[]|Hc]. right. exact Hc.
+        * destruct Hc as [Hc|[]]. left. exact Hc.
+      + apply mbind_ok in H. destruct H as (u & s1 & H1 & H). unfold ret in H. inversion H; subst; clear H.
+        destruct Hwhere as [[_ Hne]|(x & Hx & Hjx)]; [exfalso; apply Hne; reflexivity|].
+        rewrite forallb_forall in Hg. specialize (Hg _ Hx). destruct (refs x); [contradiction|discriminate]. }
+  destruct (HI c (or_introl eq_refl)) as [HcS HcW].
+  intros x Hx. apply in_app_or in Hx. destruct Hx as [Hx|Hx].
+  - assert (Hpne : push <> []) by (intro; subst; contradiction).
+    split.
+    + (* a pushed group *)
+      intros jid g -> Hne.
+      destruct (pushes_group c) eqn:Epg; [|exfalso; eapply only_next_and_group_push_groups; eauto].
+      destruct c; simpl in Epg; try discriminate Epg.
+      * (* pushed by AJNext: the job popped, hence had a plan, hence is current *)
+        simpl in H. destruct (aj_next_cases _ _ _ _ _ H) as [[-> _]|(j & seq & group & Hj & _ & _ & Hgp & -> & ->)];
+          [contradiction|].
+        destruct Hx as [Hx|[Hx|[]]]; [|discriminate]. inversion Hx; subst jid g; clear Hx.
+        assert (Hcur : is_current s jid0).
+        { destruct (HcW jid0 (or_introl eq_refl)) as [Hc|(j1 & Hj1 & Hp1)]; [exact Hc|].
+          rewrite Hj in Hj1. inversion Hj1; subst j1. rewrite Hp1 in Hgp. discriminate. }
+        unfold is_current in *. simpl. exact Hcur.
+      * (* pushed by AJGroup: the rest of the same group *)
+        destruct group as [|cid rest0]; [simpl in H; unfold ret in H; inversion H; subst; contradiction|].
+        simpl in H. destruct (aj_group_cases _ _ _ _ _ _ _ H) as (_ & _ & Hgr & _).
+        destruct (Hgr _ _ Hx) as [-> ->].
+        apply Hstrong; [apply (HcS jid0 (cid :: rest0) eq_refl); discriminate|].
+        exists (cid :: rest0). split; [discriminate|]. right. split; [reflexivity|exact Hpne].
+    + intros jid Hj. destruct (pushed_refs _ _ _ _ _ H x Hx jid Hj) as [Hr|Hcur]; [|left; exact Hcur].
+      apply Hweak; [apply HcW; exact Hr|]. left. split; assumption.
+  - destruct (HI x (or_intror Hx)) as [HxS HxW]. split.
+    + intros jid g -> Hne. apply Hstrong; [eapply HxS; eauto|]. exists g. split; [exact Hne|]. left. exact Hx.
+    + intros jid Hj. apply Hweak; [apply HxW; exact Hj|]. right. exists x. split; assumption.
+Qed.
+
+(* ---- runs guarded by all three hypotheses, with both logs *)
+Definition guard_all (c : call) (rest : list call) (s : st) : bool := guard c rest s && guard_current2 c rest s.
+
+Inductive gcres :=
+| GCOk (s : st) (gh : ghost) (log : list gentry) (elog : list (st * call * out))
+| GCCrash (k : crash)
+| GCGuard.
+
+Fixpoint exec_gc (fuel : nat) (ag : list call) (s : st) (gh : ghost) (acc : list gentry)
+                 (eacc : list (st * call * out)) : gcres :=
+  match ag with
+  | [] => GCOk s gh (rev acc) (rev eacc)
+  | c :: rest =>
+      match fuel with
+      | O => GCCrash OutOfFuel
+      | S f =>
+          if guard_all c rest s then
+            match step_call c s with
+            | Crash k => GCCrash k
+            | Ok ((push, outs), s') =>
+                exec_gc f (push ++ rest) s' (ghost_step c s push gh) (rev (entries_of c s push outs gh) ++ acc)
+                        (rev (map (fun o => (s, c, o)) outs) ++ eacc)
+            end
+          else GCGuard
+      end
+  end.
+
+(* a request emitted while a group is processed comes from a job that is in current_jobs of a sequencer *)
+Definition emitted_by_current_job (x : st * call * out) : Prop :=
+  forall jid g, snd (fst x) = AJGroup jid g -> g <> [] -> is_current (fst (fst x)) jid.
+
+Theorem guarded_run : forall fuel ag s gh acc eacc s' gh' log elog,
+  seq_shape_inv ag s gh -> current_inv2 ag s -> Forall entry_ok acc -> Forall emitted_by_current_job eacc ->
+  exec_gc fuel ag s gh acc eacc = GCOk s' gh' log elog ->
+  seq_shape_inv [] s' gh' /\ Forall entry_ok log /\ Forall emitted_by_current_job elog.
+Proof.
+  induction fuel as [|f IH]; intros ag s gh acc eacc s' gh' log elog HS HC Hacc Heacc H;
+    destruct ag as [|c rest]; simpl in H.
+  - inversion H; subst. split; [exact HS|]. split; apply Forall_rev; assumption.
+  - discriminate.
+  - inversion H; subst. split; [exact HS|]. split; apply Forall_rev; assumption.
+  - destruct (guard_all c rest s) eqn:Eg; [|discriminate]. unfold guard_all in Eg. apply andb_prop in Eg.
+    destruct Eg as [Eg1 Eg2].
+    destruct (step_call c s) as [[[push outs] s1]|k] eqn:Es; [|discriminate].
+    eapply IH; [eapply inv_step; eauto|eapply current_step2; eauto| | |exact H].
+    + apply Forall_app. split; [apply Forall_rev; eapply entries_ok; eauto|exact Hacc].
+    + apply Forall_app. split; [|exact Heacc]. apply Forall_rev. apply Forall_forall. intros x Hx.
+      apply in_map_iff in Hx. destruct Hx as (o & <- & _). unfold emitted_by_current_job. simpl.
+      intros jid g Hc Hne. destruct (HC c (or_introl eq_refl)) as [HcS _]. eapply HcS; eauto.
+Qed.
+
+(* operations: what the user / the fsm may put on the agenda works on no job yet *)
+Definition op_ok2 (o : op) : bool :=
+  match o with
+  | OpCall c => match c with AJGroup _ _ => false | _ => match refs c with [] => true | _ => false end end
+  | _ => true
+  end.
+
+Lemma op_calls_toplevel : forall o s ag s', op_ok2 o = true -> op_calls o s = Ok (ag, s') ->
+  forall c, In c ag -> refs c = [] /\ forall jid g, c <> AJGroup jid g.
+Proof.
+  intros o s ag s' Hok H c Hc.
+  assert (F : Forall (fun x => refs x = [] /\ forall jid g, x <> AJGroup jid g) ag).
+  { destruct o; simpl in H; try (unfold ev_event, ev_tick, ev_ctx_invalidate in H); chase H;
+      repeat (apply Forall_cons; [split; [reflexivity|intros; discriminate]|]); try apply Forall_nil.
+    simpl in Hok. destruct c0; try discriminate Hok; simpl in Hok;
+      try (constructor; [split; [reflexivity|intros; discriminate]|constructor]);
+      destruct snap; try discriminate Hok; constructor; [split; [reflexivity|intros; discriminate]|constructor]. }
+  rewrite Forall_forall in F. apply (F _ Hc).
+Qed.
+
+Fixpoint run_gc (fuel : nat) (s : st) (gh : ghost) (ops : list top) (acc : list gentry)
+                (eacc : list (st * call * out)) : gcres :=
+  match ops with
+  | [] => GCOk s gh acc eacc
+  | (o, now, orc) :: r =>
+      match op_calls o (set_now_oracle now orc s) with
+      | Crash k => GCCrash k
+      | Ok (ag, s1) =>
+          match exec_gc fuel ag s1 gh [] [] with
+          | GCOk s' gh' log elog => run_gc fuel s' gh' r (acc ++ log) (eacc ++ elog)
+          | other => other
+          end
+      end
+  end.
+
+(* C03 / C09 ordering along whole histories, partial: under H_no_reentrant_next, H_no_add_commands and
+   H_no_reentrant_delete (checked on every configuration of the run by guard_all), from the initial state of any
+   configuration: (process level) at every request the command belongs to the group popped last for its job, every
+   current command of the job belongs to that group, every key still planned is beyond its key, popped keys are
+   strictly monotone; (application level) the job is in current_jobs of its sequencer at that moment *)
+Theorem ordering_partial : forall fuel cf ops s' gh' log elog,
+  forallb (fun t => op_ok2 (fst (fst t))) ops = true ->
+  run_gc fuel (init_st cf) [] ops [] [] = GCOk s' gh' log elog ->
+  seq_shape_inv [] s' gh' /\ Forall entry_ok log /\ Forall emitted_by_current_job elog.
+Proof.
+  intros fuel cf.
+  assert (G : forall ops s gh acc eacc s' gh' log elog,
+            seq_shape_inv [] s gh -> Forall entry_ok acc -> Forall emitted_by_current_job eacc ->
+            forallb (fun t => op_ok2 (fst (fst t))) ops = true ->
+            run_gc fuel s gh ops acc eacc = GCOk s' gh' log elog ->
+            seq_shape_inv [] s' gh' /\ Forall entry_ok log /\ Forall emitted_by_current_job elog).
+  { induction ops as [|[[o now] orc] r IH]; intros s gh acc eacc s' gh' log elog HS Hacc Heacc Hok H; simpl in H.
+    - inversion H; subst. auto.
+    - simpl in Hok. apply andb_prop in Hok. destruct Hok as [Hok1 Hok].
+      destruct (op_calls o (set_now_oracle now orc s)) as [[ag s1]|k] eqn:Eo; [|discriminate].
+      destruct (exec_gc fuel ag s1 gh [] []) as [s2 gh2 log2 elog2| |] eqn:Ee; try discriminate.
+      pose proof (op_calls_toplevel _ _ _ _ Hok1 Eo) as Htop.
+      assert (HS1 : seq_shape_inv ag s1 gh).
+      { eapply inv_nil_T; [exact HS| |].
+        - eapply T_trans; [apply (T_same s (set_now_oracle now orc s)); reflexivity|]. eapply pres_op_calls; eauto.
+        - intros jid g Hin. destruct (Htop _ Hin) as [_ Hn]. eapply Hn; reflexivity. }
+      assert (HC1 : current_inv2 ag s1).
+      { intros c Hc. destruct (Htop _ Hc) as [Hr Hn]. split.
+        - intros jid g ->. exfalso. eapply Hn; reflexivity.
+        - intros jid Hj. rewrite Hr in Hj. contradiction. }
+      destruct (guarded_run _ _ _ _ _ _ _ _ _ _ HS1 HC1 (Forall_nil _) (Forall_nil _) Ee) as (HS2 & Hl2 & He2).
+      eapply IH; [exact HS2| | |exact Hok|exact H]; apply Forall_app; split; assumption. }
+  intros ops s' gh' log elog Hok H. eapply G; [apply seq_shape_init|constructor|constructor|exact Hok|exact H].
+Qed.
+
+(* the hypotheses are satisfiable (witness C, three operations incl. a timeout and the next sequence) ... *)
+Example ordering_hypotheses_hold :
+  exists s gh log elog, run_gc default_fuel (init_st w_cf_c) [] w_ops_c [] [] = GCOk s gh log elog /\
+    length log = 4%nat /\ length (filter (fun x => match snd x with OStart _ _ _ => true | _ => false end) elog) = 2%nat.
+Proof. vm_compute. do 4 eexists. repeat split; reflexivity. Qed.
+
+(* ... and H_no_reentrant_delete is exactly what the known finding c03-noresource-reentrancy violates *)
+Example noresource_witness_leaves_hypotheses :
+  run_gc default_fuel (init_st w_cf_a) [] w_ops_a [] [] = GCGuard.
+Proof. vm_compute. reflexivity. Qed.
+
+Definition leaves_all_guards (c : case) : bool :=
+  match run_gc default_fuel (init_st (fst (fst c))) [] (snd (fst c)) [] [] with GCGuard => true | _ => false end.
+Definition all_guard_failures (cs : list case) : list nat := find_idx leaves_all_guards cs.
